@@ -16,6 +16,7 @@ import Mathlib.Tactic.LinearCombination
 import Mathlib.Tactic.Linarith
 import Mathlib.Algebra.Order.Field.Basic
 import Mathlib.Analysis.Real.Sqrt
+import Mathlib.Algebra.BigOperators.Group.List.Basic
 
 set_option linter.unusedSectionVars false
 
@@ -269,11 +270,21 @@ end field
 
 
 
-/-! ## sub-path selection (partial — see the summary at the end of this section)
+/-! ## sub-path selection
 
-`Na` / `Nb` are the points nearest `a` / `b`.  The hypotheses say which segment they fall on **directly**
-(`ha.index`, and `hb.index` on the *working* polyline that already contains `Na`); that a non-self-touching
-polyline makes these the geometrically expected segments is not formalised. -/
+`Na` / `Nb` are the points nearest `a` / `b`.  Three layers:
+
+1. `sliced_at_points_forward` … `sliced_at_points_closing_edge_full_turn`: the landing segments are hypotheses on the
+   *working* polyline (the one that already contains `Na`).
+2. `sliced_at_points_original` (and its corollaries `sliced_at_points_original_*`): every case, hypotheses on the
+   ORIGINAL polyline only (`LandsInside`: which segment, at which parameter); the bridge is `landing_inner` /
+   `landing_closing` (where `b` lands after `Na` has been inserted), built on `split_preserves_nearest`.
+3. `Simple` ("does not touch itself") and points ON the polyline: `nearest_on_simple` derives the landing hypotheses,
+   `sliced_at_points_on_path` is the sub-path clause with no hypothesis about `nearest`; over ℝ
+   `closed_subpaths_cover_loop` (the two closed sub-paths are the two ways round), `aligned_closed_on_path_shorter`
+   and `aligned_open_on_path_forward` (the returned orientation).  `C07_subpath_partial` collects them; what it leaves
+   out of `C07_subpath_statement` is only the pairs of distinct points closer than `atol` to each other, for which the
+   code returns the one-vertex polyline `[Na]` (`sliced_at_points_original_same_point`). -/
 
 section subpath
 variable {K : Type} [Field K] [LinearOrder K] [IsStrictOrderedRing K]
@@ -674,6 +685,942 @@ theorem sliced_at_points_forward_original (f : K → K) (hf : ∀ x y : K, 0 ≤
     (by rw [eE, eW]; exact hnb') (by rw [eE, q1]; exact hvb)
   rw [this, q1]
 
+/-- the row `nearestOne` reports is the candidate row of the reported segment -/
+theorem nearest_row (f : K → K) (pl : Polyline K) (q : V3 K) (h : Hit K) (hn : nearestOne f pl q = .ok h)
+    (sg : V3 K × V3 K) (hsg : pl.segments[h.index]? = some sg) :
+    h.point = closestPoint q sg.1 (sg.2 - sg.1) ∧ h.t = closestT q sg.1 (sg.2 - sg.1) ∧
+    h.dist = f ((closestPoint q sg.1 (sg.2 - sg.1) - q).normSq) := by
+  have hfm := (nearestOne_firstMin f pl q h hn).1
+  rw [List.getElem?_map, hsg] at hfm
+  have := Option.some.inj hfm
+  exact ⟨(congrArg Cand.point this).symm, (congrArg Cand.t this).symm, (congrArg Cand.dist this).symm⟩
+
+/-- **the same-segment case of `split_preserves_nearest`**: when the query's nearest segment is the one that is cut
+    (at parameter `s`), the half that is reported is decided by the query's own parameter `t` on the uncut segment:
+    `t ≤ s` — the first half (same index), `s < t` — the second half (index `+ 1`). -/
+theorem split_preserves_nearest_same (f : K → K) (hf : ∀ x y : K, 0 ≤ x → 0 ≤ y → (f x ≤ f y ↔ x ≤ y))
+    (pl pl' : Polyline K) (pre post : List (V3 K × V3 K)) (x y : V3 K) (s : K) (hs0 : 0 ≤ s) (hs1 : s ≤ 1)
+    (hseg : pl.segments = pre ++ (x, y) :: post)
+    (hseg' : pl'.segments = pre ++ (x, x + V3.smul s (y - x)) :: (x + V3.smul s (y - x), y) :: post)
+    (q : V3 K) (h h' : Hit K) (hn : nearestOne f pl q = .ok h) (hn' : nearestOne f pl' q = .ok h')
+    (hidx : h.index = pre.length) :
+    (h.t ≤ s → h'.index = pre.length) ∧ (s < h.t → h'.index = pre.length + 1) := by
+  set P := x + V3.smul s (y - x) with hP
+  have hrow := nearest_row f pl q h hn (x, y) (by
+    rw [hseg, hidx, List.getElem?_append_right (le_refl _)]; simp)
+  simp only at hrow
+  have hfm := nearestOne_firstMin f pl q h hn
+  rw [hseg, List.map_append, List.map_cons] at hfm
+  have key : ∀ k c, FirstMin ((pre.map (cand f q)) ++ cand f q (x, P) :: cand f q (P, y) :: post.map (cand f q)) k c →
+      h'.index = k := by
+    intro k c hk
+    refine (nearestOne_of_firstMin f pl' q h' hn' k c ?_).1
+    rw [hseg', List.map_append, List.map_cons, List.map_cons]
+    exact hk
+  obtain ⟨le1, le2, hor⟩ := split_segment q x y s hs0 hs1
+  obtain ⟨w1, _, w3, _⟩ := split_which q x y s hs0 hs1
+  rw [← hP] at le1 le2 hor w1 w3
+  have nn : ∀ w : V3 K, 0 ≤ w.normSq := fun w => dot_self_nonneg w
+  have h1 : (cand f q (x, y)).dist ≤ (cand f q (x, P)).dist := (hf _ _ (nn _) (nn _)).mpr le1
+  have h2 : (cand f q (x, y)).dist ≤ (cand f q (P, y)).dist := (hf _ _ (nn _) (nn _)).mpr le2
+  have h12 : (cand f q (x, P)).dist = (cand f q (x, y)).dist ∨ (cand f q (P, y)).dist = (cand f q (x, y)).dist := by
+    rcases hor with h | h
+    · left; show f _ = f _; rw [h]
+    · right; show f _ = f _; rw [h]
+  obtain ⟨_, s2, s3, _⟩ := hfm.split (pre.map (cand f q)) (post.map (cand f q)) (cand f q (x, y))
+    (cand f q (x, P)) (cand f q (P, y)) h1 h2 h12
+  rw [List.length_map] at s2 s3
+  constructor
+  · intro hts
+    rw [hrow.2.1] at hts
+    have hd : (cand f q (x, P)).dist = (cand f q (x, y)).dist := by
+      show f _ = f _
+      rw [w1 hts]
+    have := key _ _ (s2 hidx hd)
+    rw [this, hidx]
+  · intro hst
+    rw [hrow.2.1] at hst
+    have hlt : (cand f q (x, y)).dist < (cand f q (x, P)).dist := by
+      have := w3 hst
+      apply lt_of_not_ge
+      intro hle
+      exact absurd ((hf _ _ (nn _) (nn _)).mp hle) (not_le.mpr this)
+    have := key _ _ (s3 hidx hlt)
+    rw [this, hidx]
+
+/-- **where `b` lands on the working polyline, `Na` on an inner edge.**  `Na` (the point nearest `a`, on segment
+    `ha.index` which is not the closing edge) has been inserted as vertex `ha.index + 1`.  The point nearest `b` is
+    unchanged, and its segment index — in terms of its index and parameter on the *original* polyline — is: the same
+    before `Na`'s segment, `+ 1` after it, and on `Na`'s own segment the first half when `t_b ≤ t_a`, the second when
+    `t_a < t_b`. -/
+theorem landing_inner (f : K → K) (hf : ∀ x y : K, 0 ≤ x → 0 ≤ y → (f x ≤ f y ↔ x ≤ y))
+    (pl : Polyline K) (a b : V3 K) (ha hb : Hit K)
+    (hna : nearestOne f pl a = .ok ha) (hnb : nearestOne f pl b = .ok hb) (hin : ha.index + 1 < pl.v.length) :
+    ∃ hb', nearestOne f ⟨insertBefore pl.v (ha.index + 1) ha.point, pl.closed⟩ b = .ok hb' ∧
+      hb'.point = hb.point ∧
+      (hb.index < ha.index → hb'.index = hb.index) ∧
+      (hb.index = ha.index → hb.t ≤ ha.t → hb'.index = hb.index) ∧
+      (hb.index = ha.index → ha.t < hb.t → hb'.index = hb.index + 1) ∧
+      (ha.index < hb.index → hb'.index = hb.index + 1) := by
+  obtain ⟨v, c⟩ := pl
+  simp only at hin ⊢
+  obtain ⟨p', x, y, s', hl, hv, _, _⟩ := list_split_two v ha.index hin
+  subst hv
+  obtain ⟨pre, post, hpl, hs1, hs2⟩ := segments_split_inner p' s' x y ha.point c
+  have hrow := nearest_row f _ a ha hna (x, y) (by
+    rw [hs1, ← hl, ← hpl, List.getElem?_append_right (le_refl _)]; simp)
+  simp only at hrow
+  have ht0 : 0 ≤ ha.t := by rw [hrow.2.1]; exact (closest_t_range _ _ _).1
+  have ht1 : ha.t ≤ 1 := by rw [hrow.2.1]; exact (closest_t_range _ _ _).2.1
+  have hpt : ha.point = x + V3.smul ha.t (y - x) := by
+    rw [hrow.1, hrow.2.1]; rfl
+  have eW : insertBefore (p' ++ x :: y :: s') (ha.index + 1) ha.point = p' ++ x :: ha.point :: y :: s' := by
+    have : p' ++ x :: y :: s' = (p' ++ [x]) ++ (y :: s') := by simp
+    rw [this]
+    have hl2 : ha.index + 1 = (p' ++ [x]).length := by simp [hl]
+    rw [hl2, insertBefore_append]; simp
+  rw [eW]
+  have hex : ∃ hb', nearestOne f ⟨p' ++ x :: ha.point :: y :: s', c⟩ b = .ok hb' := by
+    unfold nearestOne
+    rw [hs2]
+    cases pre <;> exact ⟨_, rfl⟩
+  obtain ⟨hb', hnb'⟩ := hex
+  refine ⟨hb', hnb', ?_⟩
+  have hnb1 := hnb'
+  rw [hpt] at hnb1 hs2
+  obtain ⟨q1, _, q3, _, q5⟩ := insert_preserves_nearest f hf p' s' x y c ha.t ht0 ht1 b hb hb' hnb hnb1
+  rw [hl] at q3 q5
+  refine ⟨q1, fun h => (q3 h).1, ?_, ?_, fun h => (q5 h).1⟩
+  · intro he hle
+    have := (split_preserves_nearest_same f hf _ _ pre post x y ha.t ht0 ht1 hs1 hs2 b hb hb' hnb hnb1
+      (by rw [he, hpl, hl])).1 hle
+    rw [this, hpl, hl, he]
+  · intro he hlt
+    have := (split_preserves_nearest_same f hf _ _ pre post x y ha.t ht0 ht1 hs1 hs2 b hb hb' hnb hnb1
+      (by rw [he, hpl, hl])).2 hlt
+    rw [this, hpl, hl, he]
+
+/-- **where `b` lands on the working polyline, `Na` on the closing edge** of a closed polyline (`Na` becomes vertex 0:
+    the second half of the closing edge is now segment `0`, its first half the new closing edge `n`).  Provided `b` is
+    strictly closer to its own nearest point than to the closing edge (unless that is where it lands), the point
+    nearest `b` is unchanged and its index is `+ 1` for an inner segment; on the closing edge itself it is `0` when
+    `t_a ≤ t_b` and `n` when `t_b < t_a`. -/
+theorem landing_closing (f : K → K) (hf : ∀ x y : K, 0 ≤ x → 0 ≤ y → (f x ≤ f y ↔ x ≤ y))
+    (pl : Polyline K) (a b : V3 K) (ha hb : Hit K) (hclosed : pl.closed = true)
+    (hna : nearestOne f pl a = .ok ha) (hnb : nearestOne f pl b = .ok hb) (hia : ha.index + 1 = pl.v.length)
+    (hstrict : hb.index ≠ ha.index → ∀ sg, pl.segments[ha.index]? = some sg →
+      (hb.point - b).normSq < (closestPoint b sg.1 (sg.2 - sg.1) - b).normSq) :
+    ∃ hb', nearestOne f ⟨ha.point :: pl.v, true⟩ b = .ok hb' ∧ hb'.point = hb.point ∧
+      (hb.index < ha.index → hb'.index = hb.index + 1) ∧
+      (hb.index = ha.index → ha.t ≤ hb.t → hb'.index = 0) ∧
+      (hb.index = ha.index → hb.t < ha.t → hb'.index = pl.v.length) := by
+  obtain ⟨v, c⟩ := pl
+  simp only at hclosed hia hstrict ⊢
+  subst hclosed
+  have hvne : v ≠ [] := by intro h; rw [h] at hia; simp at hia
+  obtain ⟨pre, l, fv, hpl, _, _, hs1, hs2⟩ := segments_split_closing v hvne ha.point
+  have hpl' : pre.length = ha.index := by omega
+  have hget : (⟨v, true⟩ : Polyline K).segments[ha.index]? = some (l, fv) := by
+    rw [hs1, ← hpl', List.getElem?_append_right (le_refl _)]; simp
+  have hrow := nearest_row f _ a ha hna (l, fv) hget
+  simp only at hrow
+  have ht0 : 0 ≤ ha.t := by rw [hrow.2.1]; exact (closest_t_range _ _ _).1
+  have ht1 : ha.t ≤ 1 := by rw [hrow.2.1]; exact (closest_t_range _ _ _).2.1
+  have hpt : ha.point = l + V3.smul ha.t (fv - l) := by
+    rw [hrow.1, hrow.2.1]; rfl
+  set P := ha.point with hPdef
+  have hex : ∃ hb', nearestOne f ⟨P :: v, true⟩ b = .ok hb' := by
+    unfold nearestOne
+    rw [hs2]
+    exact ⟨_, rfl⟩
+  obtain ⟨hb', hnb'⟩ := hex
+  refine ⟨hb', hnb', ?_⟩
+  -- the candidate rows
+  have hfm := nearestOne_firstMin f _ b hb hnb
+  rw [hs1, List.map_append, List.map_cons, List.map_nil] at hfm
+  have key : ∀ k cc, FirstMin (cand f b (P, fv) :: pre.map (cand f b) ++ [cand f b (l, P)]) k cc →
+      hb'.index = k ∧ hb'.point = cc.point := by
+    intro k cc hk
+    have := nearestOne_of_firstMin f _ b hb' hnb' k cc (by
+      rw [hs2]
+      simp only [List.map_append, List.map_cons, List.map_nil]
+      exact hk)
+    exact ⟨this.1, this.2.1⟩
+  obtain ⟨le1, le2, _⟩ := split_segment b l fv ha.t ht0 ht1
+  obtain ⟨w1, w2, _, w4⟩ := split_which b l fv ha.t ht0 ht1
+  rw [← hpt] at le1 le2 w1 w2 w4
+  have nn : ∀ w : V3 K, 0 ≤ w.normSq := fun w => dot_self_nonneg w
+  have h1 : (cand f b (l, fv)).dist ≤ (cand f b (l, P)).dist := (hf _ _ (nn _) (nn _)).mpr le1
+  have h2 : (cand f b (l, fv)).dist ≤ (cand f b (P, fv)).dist := (hf _ _ (nn _) (nn _)).mpr le2
+  obtain ⟨s1, s2, s3⟩ := hfm.split_closing (pre.map (cand f b)) (cand f b (l, fv)) (cand f b (l, P))
+    (cand f b (P, fv)) h1 h2
+  rw [List.length_map] at s1 s2 s3
+  have flt : ∀ u w : V3 K, u.normSq < w.normSq → f u.normSq < f w.normSq := by
+    intro u w huw
+    apply lt_of_not_ge
+    intro hle
+    exact absurd ((hf _ _ (nn _) (nn _)).mp hle) (not_le.mpr huw)
+  have hbrow : hb.index = ha.index → hb.point = closestPoint b l (fv - l) ∧ hb.t = closestT b l (fv - l) := by
+    intro he
+    have := nearest_row f _ b hb hnb (l, fv) (by rw [he]; exact hget)
+    exact ⟨this.1, this.2.1⟩
+  have hbt0 : 0 ≤ hb.t := by
+    have hcons : ∃ sg, (⟨v, true⟩ : Polyline K).segments[hb.index]? = some sg := by
+      have := hfm.1
+      rw [← List.map_nil (f := cand f b), ← List.map_cons, ← List.map_append, List.getElem?_map] at this
+      obtain ⟨sg, hsg, _⟩ := Option.map_eq_some_iff.mp this
+      exact ⟨sg, by rw [hs1]; exact hsg⟩
+    obtain ⟨sg, hsg⟩ := hcons
+    rw [(nearest_row f _ b hb hnb sg hsg).2.1]
+    exact (closest_t_range _ _ _).1
+  have hidx : hb.index < v.length := by
+    have := nearest_index_lt f _ b hb hnb
+    rw [numE_eq] at this
+    simpa using this
+  rcases Nat.lt_trichotomy hb.index ha.index with hlt | he | hgt
+  · have hd : (⟨hb.point, hb.t, hb.dist⟩ : Cand K).dist < (cand f b (l, fv)).dist := by
+      have hcons : ∃ sg, (⟨v, true⟩ : Polyline K).segments[hb.index]? = some sg := by
+        have := hfm.1
+        rw [← List.map_nil (f := cand f b), ← List.map_cons, ← List.map_append, List.getElem?_map] at this
+        obtain ⟨sg, hsg, _⟩ := Option.map_eq_some_iff.mp this
+        exact ⟨sg, by rw [hs1]; exact hsg⟩
+      obtain ⟨sg, hsg⟩ := hcons
+      have hr := nearest_row f _ b hb hnb sg hsg
+      show hb.dist < f _
+      rw [hr.2.2, ← hr.1]
+      exact flt _ _ (hstrict (by omega) (l, fv) hget)
+    obtain ⟨k1, k2⟩ := key _ _ (s1 (by omega) hd)
+    exact ⟨k2, fun _ => k1, fun h => absurd h (by omega), fun h => absurd h (by omega)⟩
+  · obtain ⟨hbp, hbt⟩ := hbrow he
+    refine ⟨?_, fun h => absurd h (by omega), ?_, ?_⟩
+    · rcases le_or_gt ha.t hb.t with hle | hlt
+      · rw [hbt] at hle
+        have hd : (cand f b (P, fv)).dist = (cand f b (l, fv)).dist := by
+          show f _ = f _
+          rw [w2 hle]
+        obtain ⟨_, k2⟩ := key _ _ (s2 (by omega) hd)
+        rw [k2, hbp]
+        exact w2 hle
+      · have hnz : (fv - l).dot (fv - l) ≠ 0 := by
+          intro hz
+          have := closestT_zero_vec a l (fv - l) hz
+          rw [← hrow.2.1] at this
+          linarith
+        rw [hbt] at hlt
+        have hd2 : (cand f b (l, fv)).dist < (cand f b (P, fv)).dist := flt _ _ (w4 hlt hnz)
+        have hd1 : (cand f b (l, P)).dist = (cand f b (l, fv)).dist := by
+          show f _ = f _
+          rw [w1 (le_of_lt hlt)]
+        obtain ⟨_, k2⟩ := key _ _ (s3 (by omega) hd2 hd1)
+        rw [k2, hbp]
+        exact w1 (le_of_lt hlt)
+    · intro _ hle
+      rw [hbt] at hle
+      have hd : (cand f b (P, fv)).dist = (cand f b (l, fv)).dist := by
+        show f _ = f _
+        rw [w2 hle]
+      exact (key _ _ (s2 (by omega) hd)).1
+    · intro _ hlt
+      have hnz : (fv - l).dot (fv - l) ≠ 0 := by
+        intro hz
+        have := closestT_zero_vec a l (fv - l) hz
+        rw [← hrow.2.1] at this
+        linarith
+      rw [hbt] at hlt
+      have hd2 : (cand f b (l, fv)).dist < (cand f b (P, fv)).dist := flt _ _ (w4 hlt hnz)
+      have hd1 : (cand f b (l, P)).dist = (cand f b (l, fv)).dist := by
+        show f _ = f _
+        rw [w1 (le_of_lt hlt)]
+      have := (key _ _ (s3 (by omega) hd2 hd1)).1
+      rw [this]; omega
+  · omega
+
+/-! ### `sliced_at_points` in terms of the ORIGINAL polyline: every case -/
+
+/-- `q`'s nearest point on `pl` is `N`, lying on segment `i` of `pl` at parameter `t`, and `N` is not within `atol`
+    (coordinate-wise, `index_of_vertex`'s test) of any vertex of `pl` — so it will be inserted as a new vertex -/
+def LandsInside (f : K → K) (pl : Polyline K) (atol : K) (q : V3 K) (i : Nat) (t : K) (N : V3 K) : Prop :=
+  ∃ h : Hit K, nearestOne f pl q = .ok h ∧ h.index = i ∧ h.t = t ∧ h.point = N ∧
+    indexOfVertex pl.v N atol = .error .ValueError
+
+/-- **the sub-path from position `(i, ta)` to position `(j, tb)`** of the vertex list `v` (positions = segment index
+    and parameter, ordered lexicographically): `Na`, the vertices strictly between, `Nb`.  Forward when `(i, ta) <
+    (j, tb)`; otherwise a closed polyline is walked through its end (`v[i+1..]`, then `v[..j]`) — all the way round
+    when both points are on one segment — and an open polyline has no such sub-path (`sliced_at_indices` raises
+    ValueError). -/
+def subPath (v : List (V3 K)) (closed : Bool) (i : Nat) (ta : K) (Na : V3 K) (j : Nat) (tb : K) (Nb : V3 K) :
+    Res (Polyline K) :=
+  if i < j ∨ (i = j ∧ ta < tb) then .ok ⟨Na :: (v.drop (i + 1)).take (j - i) ++ [Nb], false⟩
+  else if closed then .ok ⟨Na :: v.drop (i + 1) ++ v.take (j + 1) ++ [Nb], false⟩
+  else .error .ValueError
+
+theorem take_mid_drop {α : Type} (v : List α) (i j : Nat) (hij : i ≤ j) :
+    v = v.take (i + 1) ++ (v.drop (i + 1)).take (j - i) ++ v.drop (j + 1) := by
+  have : v.drop (j + 1) = (v.drop (i + 1)).drop (j - i) := by
+    rw [List.drop_drop]; congr 1; omega
+  rw [List.append_assoc, this, List.take_append_drop, List.take_append_drop]
+
+/-- **`sliced_at_points`, every case, hypotheses on the original polyline only.**  `a` lands strictly inside segment
+    `i` at parameter `ta` (point `Na`), `b` inside segment `j` at `tb` (point `Nb`), both on the polyline *as given*;
+    neither is within `atol` of a vertex, `Nb` is not within `atol` of `Na`; and, only when `Na` is on the closing
+    edge and `Nb` is not, `b` is strictly closer to `Nb` than to the closing edge.  Then the result is exactly
+    `subPath`: `[Na] ++ vertices strictly between ++ [Nb]`, wrapping on closed polylines, ValueError when an open
+    polyline would have to be walked backwards. -/
+theorem sliced_at_points_original (f : K → K) (hf : ∀ x y : K, 0 ≤ x → 0 ≤ y → (f x ≤ f y ↔ x ≤ y))
+    (pl : Polyline K) (a b : V3 K) (atol : K) (hatol : 0 ≤ atol) (i j : Nat) (ta tb : K) (Na Nb : V3 K)
+    (hA : LandsInside f pl atol a i ta Na) (hB : LandsInside f pl atol b j tb Nb)
+    (hAB : vertexMatches Nb atol Na = false)
+    (hstrict : pl.closed = true → i + 1 = pl.v.length → j ≠ i → ∀ sg, pl.segments[i]? = some sg →
+      (Nb - b).normSq < (closestPoint b sg.1 (sg.2 - sg.1) - b).normSq) :
+    slicedAtPointsWith f pl a b atol = subPath pl.v pl.closed i ta Na j tb Nb := by
+  obtain ⟨ha, hna, rfl, rfl, rfl, hva⟩ := hA
+  obtain ⟨hb, hnb, rfl, rfl, rfl, hvb⟩ := hB
+  obtain ⟨v, c⟩ := pl
+  simp only at hva hvb hstrict ⊢
+  have hi := nearest_index_lt f _ a ha hna
+  have hj := nearest_index_lt f _ b hb hnb
+  rw [numE_eq] at hi hj
+  simp only at hi hj
+  unfold subPath
+  by_cases hin : ha.index + 1 < v.length
+  · obtain ⟨hb', hnb', hp, l1, l2, l3, l4⟩ := landing_inner f hf ⟨v, c⟩ a b ha hb hna hnb hin
+    simp only at hnb'
+    have eE : edgeEnd ⟨v, c⟩ ha.index = ha.index + 1 := edgeEnd_inner _ _ _ (Or.inr hin)
+    have hnbW : nearestOne f ⟨insertBefore v (edgeEnd ⟨v, c⟩ ha.index) ha.point, c⟩ b = .ok hb' := by
+      rw [eE]; exact hnb'
+    have hvbW : indexOfVertex (insertBefore v (edgeEnd ⟨v, c⟩ ha.index) ha.point) hb'.point atol
+        = .error .ValueError := by
+      rw [hp]; exact indexOfVertex_insert_error _ _ _ _ _ hvb hAB
+    by_cases hfw : ha.index < hb.index ∨ (ha.index = hb.index ∧ ha.t < hb.t)
+    · rw [if_pos hfw]
+      have hj' : hb'.index = hb.index + 1 := by
+        rcases hfw with h | ⟨h1, h2⟩
+        · exact l4 h
+        · exact l3 h1.symm h2
+      have hle : ha.index ≤ hb.index := by
+        rcases hfw with h | ⟨h1, _⟩ <;> omega
+      by_cases hlast : hb.index + 1 < v.length
+      · have := sliced_at_points_forward f ⟨v, c⟩ a b atol ha hb' (v.take (ha.index + 1))
+          ((v.drop (ha.index + 1)).take (hb.index - ha.index)) (v.drop (hb.index + 1))
+          (take_mid_drop v _ _ hle) (by
+            intro h
+            have := congrArg List.length h
+            simp at this; omega)
+          (by simp; omega) (by rw [hj']; simp; omega) hna hva hnbW hvbW
+        rw [this, hp]
+      · have hc : c = true := by
+          cases c
+          · simp at hj; omega
+          · rfl
+        subst hc
+        simp only [if_true] at hj
+        have := sliced_at_points_to_closing_edge f ⟨v, true⟩ a b atol ha hb' (v.take (ha.index + 1))
+          (v.drop (ha.index + 1)) (List.take_append_drop _ _).symm (by
+            intro h
+            have := congrArg List.length h
+            simp at this; omega) rfl
+          (by simp; omega) (by rw [hj']; simp only; omega) hna hva hnbW hvbW
+        rw [this, hp, List.take_of_length_le (by simp; omega)]
+    · rw [if_neg hfw]
+      have hle : hb.index ≤ ha.index := by
+        by_contra h
+        exact hfw (Or.inl (by omega))
+      have hj' : hb'.index = hb.index := by
+        rcases Nat.lt_or_ge hb.index ha.index with h | h
+        · exact l1 h
+        · have he : hb.index = ha.index := by omega
+          refine l2 he (not_lt.mp fun hlt => hfw (Or.inr ⟨he.symm, hlt⟩))
+      cases c
+      · simp only [Bool.false_eq_true, if_false]
+        exact sliced_at_points_backward_open f ⟨v, false⟩ a b atol ha hb' (v.take (hb.index + 1))
+          ((v.drop (hb.index + 1)).take (ha.index - hb.index)) (v.drop (ha.index + 1))
+          (take_mid_drop v _ _ hle) rfl (by simp; omega) (by rw [hj']; simp; omega) hna hva hnbW hvbW
+      · simp only [if_true]
+        have := sliced_at_points_wrap f ⟨v, true⟩ a b atol ha hb' (v.take (hb.index + 1))
+          ((v.drop (hb.index + 1)).take (ha.index - hb.index)) (v.drop (ha.index + 1))
+          (take_mid_drop v _ _ hle) (by
+            intro h
+            have := congrArg List.length h
+            simp at this; omega) rfl
+          (by simp; omega) (by rw [hj']; simp; omega) hna hva hnbW hvbW
+        rw [this, hp]
+  · -- `Na` on the closing edge
+    have hc : c = true := by
+      cases c
+      · simp at hi; omega
+      · rfl
+    subst hc
+    simp only [if_true] at hi hj ⊢
+    have hia : ha.index + 1 = v.length := by omega
+    have hle : hb.index ≤ ha.index := by omega
+    obtain ⟨hb', hnb', hp, l1, l2, l3⟩ := landing_closing f hf ⟨v, true⟩ a b ha hb rfl hna hnb hia
+      (fun hne => hstrict rfl hia hne)
+    simp only at hnb' l3
+    have eE : edgeEnd ⟨v, true⟩ ha.index = 0 := edgeEnd_closing _ _ hia
+    have hnbW : nearestOne f ⟨insertBefore v (edgeEnd ⟨v, true⟩ ha.index) ha.point, true⟩ b = .ok hb' := by
+      rw [eE, insertBefore_zero]; exact hnb'
+    have hvbW : indexOfVertex (insertBefore v (edgeEnd ⟨v, true⟩ ha.index) ha.point) hb'.point atol
+        = .error .ValueError := by
+      rw [hp]; exact indexOfVertex_insert_error _ _ _ _ _ hvb hAB
+    rcases Nat.lt_or_ge hb.index ha.index with hlt | hge
+    · rw [if_neg (by
+        rintro (h | ⟨h, _⟩) <;> omega)]
+      have := sliced_at_points_from_closing_edge f ⟨v, true⟩ a b atol ha hb' (v.take (hb.index + 1))
+        (v.drop (hb.index + 1)) (List.take_append_drop _ _).symm (by
+          intro h
+          have := congrArg List.length h
+          simp at this; omega) rfl hia (by rw [l1 hlt]; simp; omega) hna hva hnbW hvbW
+      rw [this, hp, List.drop_of_length_le (by omega)]
+      simp
+    · have he : hb.index = ha.index := by omega
+      -- both on the closing edge
+      obtain ⟨sgl, hsgl⟩ : ∃ sg, (⟨v, true⟩ : Polyline K).segments[ha.index]? = some sg := by
+        have := (nearestOne_firstMin f _ a ha hna).1
+        rw [List.getElem?_map] at this
+        obtain ⟨sg, hsg, _⟩ := Option.map_eq_some_iff.mp this
+        exact ⟨sg, hsg⟩
+      have ra := nearest_row f _ a ha hna sgl hsgl
+      have rb := nearest_row f _ b hb hnb sgl (by rw [he]; exact hsgl)
+      rcases lt_trichotomy ha.t hb.t with hlt | heq | hgt
+      · rw [if_pos (Or.inr ⟨he.symm, hlt⟩)]
+        have := sliced_at_points_from_closing_edge f ⟨v, true⟩ a b atol ha hb' [] v rfl (by
+            intro h; rw [h] at hia; simp at hia) rfl hia (by rw [l2 he (le_of_lt hlt)]; rfl) hna hva hnbW hvbW
+        rw [this, hp]
+        simp [he]
+      · exfalso
+        have hpe : hb.point = ha.point := by
+          rw [ra.1, rb.1]
+          unfold closestPoint
+          rw [← ra.2.1, ← rb.2.1, heq]
+        rw [hpe] at hAB
+        have hclose : ∀ x : K, closeToZero x atol = true ↔ |x| ≤ atol := by
+          intro x
+          unfold closeToZero
+          split_ifs with h
+          · rw [decide_eq_true_iff, abs_of_neg h]
+          · rw [decide_eq_true_iff, abs_of_nonneg (not_lt.mp h)]
+        have : vertexMatches ha.point atol ha.point = true := by
+          unfold vertexMatches
+          simp [hclose, hatol]
+        rw [this] at hAB
+        cases hAB
+      · rw [if_neg (by
+          rintro (h | ⟨_, h⟩)
+          · omega
+          · exact absurd h (not_lt.mpr (le_of_lt hgt)))]
+        have := sliced_at_points_closing_edge_full_turn f ⟨v, true⟩ a b atol ha hb' rfl hia
+          (by rw [l3 he hgt]) hna hva hnbW hvbW
+        rw [this, hp, List.drop_of_length_le (by omega), List.take_of_length_le (by omega)]
+        simp
+
+theorem LandsInside.index_lt {f : K → K} {pl : Polyline K} {atol : K} {q : V3 K} {i : Nat} {t : K} {N : V3 K}
+    (h : LandsInside f pl atol q i t N) : i < (if pl.closed then pl.v.length else pl.v.length - 1) := by
+  obtain ⟨hh, hn, rfl, _⟩ := h
+  have := nearest_index_lt f pl q hh hn
+  rwa [numE_eq] at this
+
+/-- **forward** (`a`'s segment strictly before `b`'s; open or closed; `b` may be on the closing edge):
+    `Na, v[i+1 .. j], Nb` -/
+theorem sliced_at_points_original_forward (f : K → K) (hf : ∀ x y : K, 0 ≤ x → 0 ≤ y → (f x ≤ f y ↔ x ≤ y))
+    (pl : Polyline K) (a b : V3 K) (atol : K) (hatol : 0 ≤ atol) (i j : Nat) (ta tb : K) (Na Nb : V3 K)
+    (hA : LandsInside f pl atol a i ta Na) (hB : LandsInside f pl atol b j tb Nb)
+    (hAB : vertexMatches Nb atol Na = false) (hij : i < j) :
+    slicedAtPointsWith f pl a b atol = .ok ⟨Na :: (pl.v.drop (i + 1)).take (j - i) ++ [Nb], false⟩ := by
+  have hj := hB.index_lt
+  rw [sliced_at_points_original f hf pl a b atol hatol i j ta tb Na Nb hA hB hAB (by
+    intro hc hi
+    rw [hc] at hj
+    simp only [if_true] at hj
+    omega)]
+  unfold subPath
+  rw [if_pos (Or.inl hij)]
+
+/-- **`b` on the closing edge**, `a` on an inner segment before it: `Na`, every vertex after `Na`, `Nb` -/
+theorem sliced_at_points_original_to_closing_edge (f : K → K)
+    (hf : ∀ x y : K, 0 ≤ x → 0 ≤ y → (f x ≤ f y ↔ x ≤ y))
+    (pl : Polyline K) (a b : V3 K) (atol : K) (hatol : 0 ≤ atol) (i j : Nat) (ta tb : K) (Na Nb : V3 K)
+    (hA : LandsInside f pl atol a i ta Na) (hB : LandsInside f pl atol b j tb Nb)
+    (hAB : vertexMatches Nb atol Na = false) (hij : i < j) (hj : j + 1 = pl.v.length) :
+    slicedAtPointsWith f pl a b atol = .ok ⟨Na :: pl.v.drop (i + 1) ++ [Nb], false⟩ := by
+  rw [sliced_at_points_original_forward f hf pl a b atol hatol i j ta tb Na Nb hA hB hAB hij,
+    List.take_of_length_le (by simp; omega)]
+
+/-- **same segment, `a` before `b`** (open or closed, any segment including the closing edge): just `Na, Nb` -/
+theorem sliced_at_points_original_same_segment_forward (f : K → K)
+    (hf : ∀ x y : K, 0 ≤ x → 0 ≤ y → (f x ≤ f y ↔ x ≤ y))
+    (pl : Polyline K) (a b : V3 K) (atol : K) (hatol : 0 ≤ atol) (i : Nat) (ta tb : K) (Na Nb : V3 K)
+    (hA : LandsInside f pl atol a i ta Na) (hB : LandsInside f pl atol b i tb Nb)
+    (hAB : vertexMatches Nb atol Na = false) (hlt : ta < tb) :
+    slicedAtPointsWith f pl a b atol = .ok ⟨[Na, Nb], false⟩ := by
+  rw [sliced_at_points_original f hf pl a b atol hatol i i ta tb Na Nb hA hB hAB (fun _ _ h => absurd rfl h)]
+  unfold subPath
+  rw [if_pos (Or.inr ⟨rfl, hlt⟩)]
+  simp
+
+/-- **open polyline, `b` not after `a`** (an earlier segment, or the same segment with `tb ≤ ta`): there is no forward
+    sub-path and the code raises ValueError (from `sliced_at_indices`) -/
+theorem sliced_at_points_original_backward_open (f : K → K)
+    (hf : ∀ x y : K, 0 ≤ x → 0 ≤ y → (f x ≤ f y ↔ x ≤ y))
+    (pl : Polyline K) (a b : V3 K) (atol : K) (hatol : 0 ≤ atol) (i j : Nat) (ta tb : K) (Na Nb : V3 K)
+    (hA : LandsInside f pl atol a i ta Na) (hB : LandsInside f pl atol b j tb Nb)
+    (hAB : vertexMatches Nb atol Na = false) (hopen : pl.closed = false)
+    (hback : j < i ∨ (j = i ∧ tb ≤ ta)) :
+    slicedAtPointsWith f pl a b atol = .error .ValueError := by
+  rw [sliced_at_points_original f hf pl a b atol hatol i j ta tb Na Nb hA hB hAB (by
+    intro hc; rw [hopen] at hc; cases hc)]
+  unfold subPath
+  rw [if_neg (by
+    rintro (h | ⟨h1, h2⟩)
+    · rcases hback with h' | ⟨h', _⟩ <;> omega
+    · rcases hback with h' | ⟨_, h'⟩
+      · omega
+      · exact absurd h2 (not_lt.mpr h')), hopen]
+  rfl
+
+/-- **closed polyline, `b` on an earlier segment than `a`** (wrapping; `a` may be on the closing edge, then
+    `v.drop (i+1) = []`): `Na`, the vertices after `Na` to the end, the vertices from the start up to `Nb`, `Nb` -/
+theorem sliced_at_points_original_wrap (f : K → K) (hf : ∀ x y : K, 0 ≤ x → 0 ≤ y → (f x ≤ f y ↔ x ≤ y))
+    (pl : Polyline K) (a b : V3 K) (atol : K) (hatol : 0 ≤ atol) (i j : Nat) (ta tb : K) (Na Nb : V3 K)
+    (hA : LandsInside f pl atol a i ta Na) (hB : LandsInside f pl atol b j tb Nb)
+    (hAB : vertexMatches Nb atol Na = false) (hclosed : pl.closed = true) (hji : j < i)
+    (hstrict : i + 1 = pl.v.length → ∀ sg, pl.segments[i]? = some sg →
+      (Nb - b).normSq < (closestPoint b sg.1 (sg.2 - sg.1) - b).normSq) :
+    slicedAtPointsWith f pl a b atol = .ok ⟨Na :: pl.v.drop (i + 1) ++ pl.v.take (j + 1) ++ [Nb], false⟩ := by
+  rw [sliced_at_points_original f hf pl a b atol hatol i j ta tb Na Nb hA hB hAB (fun _ h _ => hstrict h)]
+  unfold subPath
+  rw [if_neg (by rintro (h | ⟨h, _⟩) <;> omega), hclosed]
+  rfl
+
+/-- **`a` on the closing edge** (its halves become segments `0` and `n` of the working polyline), `b` on an inner
+    segment: `Na`, the vertices from the start up to `Nb`, `Nb` -/
+theorem sliced_at_points_original_from_closing_edge (f : K → K)
+    (hf : ∀ x y : K, 0 ≤ x → 0 ≤ y → (f x ≤ f y ↔ x ≤ y))
+    (pl : Polyline K) (a b : V3 K) (atol : K) (hatol : 0 ≤ atol) (i j : Nat) (ta tb : K) (Na Nb : V3 K)
+    (hA : LandsInside f pl atol a i ta Na) (hB : LandsInside f pl atol b j tb Nb)
+    (hAB : vertexMatches Nb atol Na = false) (hclosed : pl.closed = true) (hi : i + 1 = pl.v.length) (hji : j < i)
+    (hstrict : ∀ sg, pl.segments[i]? = some sg →
+      (Nb - b).normSq < (closestPoint b sg.1 (sg.2 - sg.1) - b).normSq) :
+    slicedAtPointsWith f pl a b atol = .ok ⟨Na :: pl.v.take (j + 1) ++ [Nb], false⟩ := by
+  rw [sliced_at_points_original_wrap f hf pl a b atol hatol i j ta tb Na Nb hA hB hAB hclosed hji
+    (fun _ => hstrict), List.drop_of_length_le (by omega)]
+  rfl
+
+/-- **closed polyline, same segment, `b` before `a`**: all the way round — `Na`, the vertices after it, the vertices
+    from the start up to the segment's start vertex, `Nb` (every vertex exactly once) -/
+theorem sliced_at_points_original_same_segment_full_turn (f : K → K)
+    (hf : ∀ x y : K, 0 ≤ x → 0 ≤ y → (f x ≤ f y ↔ x ≤ y))
+    (pl : Polyline K) (a b : V3 K) (atol : K) (hatol : 0 ≤ atol) (i : Nat) (ta tb : K) (Na Nb : V3 K)
+    (hA : LandsInside f pl atol a i ta Na) (hB : LandsInside f pl atol b i tb Nb)
+    (hAB : vertexMatches Nb atol Na = false) (hclosed : pl.closed = true) (hlt : tb < ta) :
+    slicedAtPointsWith f pl a b atol = .ok ⟨Na :: pl.v.drop (i + 1) ++ pl.v.take (i + 1) ++ [Nb], false⟩ ∧
+    (pl.v.drop (i + 1) ++ pl.v.take (i + 1)).Perm pl.v := by
+  constructor
+  · rw [sliced_at_points_original f hf pl a b atol hatol i i ta tb Na Nb hA hB hAB (fun _ _ h => absurd rfl h)]
+    unfold subPath
+    rw [if_neg (by
+      rintro (h | ⟨_, h⟩)
+      · omega
+      · exact absurd h (not_lt.mpr (le_of_lt hlt))), hclosed]
+    rfl
+  · have := List.perm_append_comm (l₁ := pl.v.drop (i + 1)) (l₂ := pl.v.take (i + 1))
+    rwa [List.take_append_drop] at this
+
+/-- … and when that segment is the closing edge: `Na`, every vertex in order, `Nb` -/
+theorem sliced_at_points_original_closing_edge_full_turn (f : K → K)
+    (hf : ∀ x y : K, 0 ≤ x → 0 ≤ y → (f x ≤ f y ↔ x ≤ y))
+    (pl : Polyline K) (a b : V3 K) (atol : K) (hatol : 0 ≤ atol) (i : Nat) (ta tb : K) (Na Nb : V3 K)
+    (hA : LandsInside f pl atol a i ta Na) (hB : LandsInside f pl atol b i tb Nb)
+    (hAB : vertexMatches Nb atol Na = false) (hclosed : pl.closed = true) (hi : i + 1 = pl.v.length)
+    (hlt : tb < ta) :
+    slicedAtPointsWith f pl a b atol = .ok ⟨Na :: pl.v ++ [Nb], false⟩ := by
+  rw [(sliced_at_points_original_same_segment_full_turn f hf pl a b atol hatol i ta tb Na Nb hA hB hAB hclosed
+    hlt).1, List.drop_of_length_le (by omega), List.take_of_length_le (by omega)]
+  simp
+
+/-! ### polylines that do not touch themselves -/
+
+/-- the point at parameter `t` of a segment -/
+def segPoint (sg : V3 K × V3 K) (t : K) : V3 K := sg.1 + V3.smul t (sg.2 - sg.1)
+
+/-- **"does not touch itself"**: no segment is a single point, and two different segments have a common point only
+    when they are consecutive and the point is the vertex they share (the end of the earlier = the start of the
+    later; for a closed polyline also the start of segment `0` = the end of the closing edge). -/
+def Simple (pl : Polyline K) : Prop :=
+  (∀ sg ∈ pl.segments, sg.1 ≠ sg.2) ∧
+  ∀ i j sgi sgj, i < j → pl.segments[i]? = some sgi → pl.segments[j]? = some sgj →
+    ∀ s t : K, 0 ≤ s → s ≤ 1 → 0 ≤ t → t ≤ 1 → segPoint sgi s = segPoint sgj t →
+      (j = i + 1 ∧ s = 1 ∧ t = 0) ∨
+      (pl.closed = true ∧ i = 0 ∧ j + 1 = pl.segments.length ∧ s = 0 ∧ t = 1)
+
+theorem normSq_eq_zero {w : V3 K} (h : w.normSq = 0) : w.x = 0 ∧ w.y = 0 ∧ w.z = 0 := dot_self_eq_zero h
+
+theorem closestT_on_segment (a v : V3 K) (hv : v.dot v ≠ 0) (t : K) (ht0 : 0 ≤ t) (ht1 : t ≤ 1) :
+    closestT (a + V3.smul t v) a v = t := by
+  have hpos : 0 < v.dot v := lt_of_le_of_ne (dot_self_nonneg v) (Ne.symm hv)
+  unfold closestT
+  rw [clampedRatio_pos hpos]
+  have : ((a + V3.smul t v) - a).dot v / v.dot v = t := by
+    have : ((a + V3.smul t v) - a).dot v = t * v.dot v := by
+      simp only [V3.dot_def, V3.add_x, V3.add_y, V3.add_z, V3.sub_x, V3.sub_y, V3.sub_z,
+        V3.smul_x, V3.smul_y, V3.smul_z]
+      ring
+    rw [this]
+    field_simp
+  rw [this]
+  unfold clip01
+  rw [if_neg (not_lt.mpr ht0), if_neg (not_lt.mpr ht1)]
+
+/-- **a point strictly inside a segment of a simple polyline is its own nearest point, found on that segment at
+    that parameter, at distance `f 0`; every point of every other segment is at positive distance** -/
+theorem nearest_on_simple (f : K → K) (hf : ∀ x y : K, 0 ≤ x → 0 ≤ y → (f x ≤ f y ↔ x ≤ y))
+    (pl : Polyline K) (hS : Simple pl) (i : Nat) (sg : V3 K × V3 K) (hsg : pl.segments[i]? = some sg)
+    (t : K) (ht0 : 0 < t) (ht1 : t < 1) :
+    (∃ h, nearestOne f pl (segPoint sg t) = .ok h ∧ h.index = i ∧ h.t = t ∧ h.point = segPoint sg t ∧
+      h.dist = f 0) ∧
+    (∀ k sgk, k ≠ i → pl.segments[k]? = some sgk → ∀ u, 0 ≤ u → u ≤ 1 →
+      0 < (segPoint sgk u - segPoint sg t).normSq) := by
+  set q := segPoint sg t with hq
+  have nn : ∀ w : V3 K, 0 ≤ w.normSq := fun w => dot_self_nonneg w
+  have hne : sg.1 ≠ sg.2 := hS.1 sg (List.mem_of_getElem? hsg)
+  have hv : (sg.2 - sg.1).dot (sg.2 - sg.1) ≠ 0 := by
+    intro hz
+    obtain ⟨hx, hy, hz⟩ := dot_self_eq_zero hz
+    simp only [V3.sub_x, V3.sub_y, V3.sub_z] at hx hy hz
+    apply hne
+    ext <;> linarith
+  -- every other segment is at positive distance
+  have hpos : ∀ k sgk, k ≠ i → pl.segments[k]? = some sgk → ∀ u, 0 ≤ u → u ≤ 1 →
+      0 < (segPoint sgk u - q).normSq := by
+    intro k sgk hk hsgk u hu0 hu1
+    apply lt_of_le_of_ne (nn _)
+    intro hz
+    obtain ⟨hx, hy, hz⟩ := normSq_eq_zero hz.symm
+    simp only [V3.sub_x, V3.sub_y, V3.sub_z] at hx hy hz
+    have heq : segPoint sgk u = segPoint sg t := by
+      ext <;> linarith
+    rcases Nat.lt_or_gt_of_ne hk with hlt | hgt
+    · rcases hS.2 k i sgk sg hlt hsgk hsg u t hu0 hu1 (le_of_lt ht0) (le_of_lt ht1) heq with ⟨_, _, h⟩ | ⟨_, _, _, _, h⟩
+      · exact absurd h (ne_of_gt ht0)
+      · exact absurd h (ne_of_lt ht1)
+    · rcases hS.2 i k sg sgk hgt hsg hsgk t u (le_of_lt ht0) (le_of_lt ht1) hu0 hu1 heq.symm with ⟨_, h, _⟩ | ⟨_, _, _, h, _⟩
+      · exact absurd h (ne_of_lt ht1)
+      · exact absurd h (ne_of_gt ht0)
+  refine ⟨?_, hpos⟩
+  -- the row of segment i
+  have hct : closestT q sg.1 (sg.2 - sg.1) = t := closestT_on_segment sg.1 (sg.2 - sg.1) hv t (le_of_lt ht0) (le_of_lt ht1)
+  have hcp : closestPoint q sg.1 (sg.2 - sg.1) = q := by
+    unfold closestPoint; rw [hct]; rfl
+  have hrow : cand f q sg = ⟨q, t, f 0⟩ := by
+    unfold cand
+    simp only [hcp, hct]
+    congr 1
+    have : (q - q).normSq = 0 := by simp [V3.normSq_def]
+    rw [this]
+  have f0lt : ∀ w : V3 K, 0 < w.normSq → f 0 < f w.normSq := by
+    intro w hw
+    apply lt_of_not_ge
+    intro hle
+    exact absurd ((hf _ _ (nn w) (le_refl _)).mp hle) (not_le.mpr hw)
+  have hfm : FirstMin (pl.segments.map (cand f q)) i ⟨q, t, f 0⟩ := by
+    refine ⟨by rw [List.getElem?_map, hsg, ← hrow]; rfl, ?_, ?_⟩
+    · intro x hx
+      obtain ⟨sgk, hsgk, rfl⟩ := List.mem_map.mp hx
+      show f 0 ≤ f _
+      exact (hf _ _ (le_refl _) (nn _)).mpr (nn _)
+    · intro k x hk hx
+      rw [List.getElem?_map] at hx
+      obtain ⟨sgk, hsgk, rfl⟩ := Option.map_eq_some_iff.mp hx
+      show f 0 < f _
+      apply f0lt
+      have := hpos k sgk (by omega) hsgk (closestT q sgk.1 (sgk.2 - sgk.1)) (closest_t_range _ _ _).1
+        (closest_t_range _ _ _).2.1
+      exact this
+  have hex : ∃ h, nearestOne f pl q = .ok h := by
+    unfold nearestOne
+    cases hs : pl.segments with
+    | nil => rw [hs] at hsg; simp at hsg
+    | cons s ss => exact ⟨_, rfl⟩
+  obtain ⟨h, hn⟩ := hex
+  obtain ⟨k1, k2, k3, k4⟩ := nearestOne_of_firstMin f pl q h hn i _ hfm
+  exact ⟨h, hn, k1, k3, k2, k4⟩
+
+/-- no vertex is within `atol` of `p` in every coordinate (`index_of_vertex`'s test fails everywhere) -/
+def FarFromVertices (vs : List (V3 K)) (p : V3 K) (atol : K) : Prop :=
+  ∀ v ∈ vs, ¬ (|v.x - p.x| ≤ atol ∧ |v.y - p.y| ≤ atol ∧ |v.z - p.z| ≤ atol)
+
+theorem vertexMatches_iff (p v : V3 K) (atol : K) :
+    vertexMatches p atol v = true ↔ (|v.x - p.x| ≤ atol ∧ |v.y - p.y| ≤ atol ∧ |v.z - p.z| ≤ atol) := by
+  have hclose : ∀ x : K, closeToZero x atol = true ↔ |x| ≤ atol := by
+    intro x
+    unfold closeToZero
+    split_ifs with h
+    · rw [decide_eq_true_iff, abs_of_neg h]
+    · rw [decide_eq_true_iff, abs_of_nonneg (not_lt.mp h)]
+  unfold vertexMatches
+  rw [Bool.and_eq_true, Bool.and_eq_true, hclose, hclose, hclose, and_assoc]
+
+/-- **`sliced_at_points_on_path`**: on a polyline that does not touch itself, for two points that lie ON it — `a` at
+    parameter `ta` strictly inside segment `i`, `b` at `tb` strictly inside segment `j` — neither within `atol` of a
+    vertex nor of each other, `sliced_at_points(a, b)` is the sub-path between them: `a`, the vertices strictly between,
+    `b`; forward when `(i, ta) < (j, tb)`, wrapping through the end on a closed polyline otherwise, ValueError on an
+    open one.  No hypothesis about what `nearest` returns. -/
+theorem sliced_at_points_on_path (f : K → K) (hf : ∀ x y : K, 0 ≤ x → 0 ≤ y → (f x ≤ f y ↔ x ≤ y))
+    (pl : Polyline K) (hS : Simple pl) (atol : K) (hatol : 0 ≤ atol) (i j : Nat) (sgi sgj : V3 K × V3 K)
+    (hi : pl.segments[i]? = some sgi) (hj : pl.segments[j]? = some sgj) (ta tb : K)
+    (hta0 : 0 < ta) (hta1 : ta < 1) (htb0 : 0 < tb) (htb1 : tb < 1)
+    (hfa : FarFromVertices pl.v (segPoint sgi ta) atol) (hfb : FarFromVertices pl.v (segPoint sgj tb) atol)
+    (hab : ¬ (|(segPoint sgi ta).x - (segPoint sgj tb).x| ≤ atol ∧ |(segPoint sgi ta).y - (segPoint sgj tb).y| ≤ atol ∧
+      |(segPoint sgi ta).z - (segPoint sgj tb).z| ≤ atol)) :
+    slicedAtPointsWith f pl (segPoint sgi ta) (segPoint sgj tb) atol =
+      subPath pl.v pl.closed i ta (segPoint sgi ta) j tb (segPoint sgj tb) := by
+  obtain ⟨⟨ha, hna, ia, ta', pa, _⟩, _⟩ := nearest_on_simple f hf pl hS i sgi hi ta hta0 hta1
+  obtain ⟨⟨hb, hnb, ib, tb', pb, _⟩, hposb⟩ := nearest_on_simple f hf pl hS j sgj hj tb htb0 htb1
+  apply sliced_at_points_original f hf pl _ _ atol hatol i j ta tb _ _
+    ⟨ha, hna, ia, ta', pa, ((index_of_vertex_spec pl.v _ atol).2).mpr hfa⟩
+    ⟨hb, hnb, ib, tb', pb, ((index_of_vertex_spec pl.v _ atol).2).mpr hfb⟩
+  · cases hm : vertexMatches (segPoint sgj tb) atol (segPoint sgi ta) with
+    | false => rfl
+    | true => exact absurd ((vertexMatches_iff _ _ _).mp hm) hab
+  · intro _ _ hne sg hsg
+    have h0 : (segPoint sgj tb - segPoint sgj tb).normSq = 0 := by simp [V3.normSq_def]
+    rw [h0]
+    exact hposb i sg hne.symm hsg _ (closest_t_range _ _ _).1 (closest_t_range _ _ _).2.1
+
+/-- a point strictly inside segment `i` of a simple polyline, not within `atol` of a vertex, "lands inside" segment
+    `i` at its own parameter, as itself — and is strictly closer to itself than to any other segment -/
+theorem on_path_lands (f : K → K) (hf : ∀ x y : K, 0 ≤ x → 0 ≤ y → (f x ≤ f y ↔ x ≤ y))
+    (pl : Polyline K) (hS : Simple pl) (atol : K) (i : Nat) (sg : V3 K × V3 K) (hi : pl.segments[i]? = some sg)
+    (t : K) (ht0 : 0 < t) (ht1 : t < 1) (hfar : FarFromVertices pl.v (segPoint sg t) atol) :
+    LandsInside f pl atol (segPoint sg t) i t (segPoint sg t) ∧
+    (∀ k sgk, k ≠ i → pl.segments[k]? = some sgk →
+      (segPoint sg t - segPoint sg t).normSq < (closestPoint (segPoint sg t) sgk.1 (sgk.2 - sgk.1) - segPoint sg t).normSq) := by
+  obtain ⟨⟨h, hn, ia, ta, pa, _⟩, hpos⟩ := nearest_on_simple f hf pl hS i sg hi t ht0 ht1
+  refine ⟨⟨h, hn, ia, ta, pa, ((index_of_vertex_spec pl.v _ atol).2).mpr hfar⟩, ?_⟩
+  intro k sgk hk hsgk
+  have h0 : (segPoint sg t - segPoint sg t).normSq = 0 := by simp [V3.normSq_def]
+  rw [h0]
+  exact hpos k sgk hk hsgk _ (closest_t_range _ _ _).1 (closest_t_range _ _ _).2.1
+
+theorem indexOfVertex_insert_hit (vs : List (V3 K)) (e : Nat) (P p : V3 K) (atol : K) (he : e ≤ vs.length)
+    (h1 : indexOfVertex vs p atol = .error .ValueError) (h2 : vertexMatches p atol P = true) :
+    indexOfVertex (insertBefore vs e P) p atol = .ok e := by
+  unfold indexOfVertex at h1 ⊢
+  cases hf : vs.findIdx? (vertexMatches p atol) with
+  | some k => rw [hf] at h1; cases h1
+  | none =>
+    have hnone := List.findIdx?_eq_none_iff.mp hf
+    have hlen : (vs.take e).length = e := by simp [he]
+    have : (insertBefore vs e P).findIdx? (vertexMatches p atol) = some e := by
+      unfold insertBefore
+      apply List.findIdx?_eq_some_iff_getElem.mpr
+      refine ⟨by simp; omega, ?_, ?_⟩
+      · rw [List.getElem_append_right (by omega)]
+        simp [hlen, h2]
+      · intro j hj
+        have hjl : j < (vs.take e).length := by omega
+        rw [List.getElem_append_left hjl]
+        have := hnone _ (List.mem_of_mem_take (List.getElem_mem hjl))
+        rw [this]; simp
+    rw [this]
+
+/-- **`b`'s nearest point coincides (within `atol`) with `Na`**, e.g. `a = b`: `Na` is found as the end vertex too and
+    the result is the one-vertex polyline `[Na]` -/
+theorem sliced_at_points_original_same_point (f : K → K) (hf : ∀ x y : K, 0 ≤ x → 0 ≤ y → (f x ≤ f y ↔ x ≤ y))
+    (pl : Polyline K) (a b : V3 K) (atol : K) (i j : Nat) (ta tb : K) (Na Nb : V3 K)
+    (hA : LandsInside f pl atol a i ta Na) (hB : LandsInside f pl atol b j tb Nb)
+    (hAB : vertexMatches Nb atol Na = true)
+    (hstrict : pl.closed = true → i + 1 = pl.v.length → j ≠ i → ∀ sg, pl.segments[i]? = some sg →
+      (Nb - b).normSq < (closestPoint b sg.1 (sg.2 - sg.1) - b).normSq) :
+    slicedAtPointsWith f pl a b atol = .ok ⟨[Na], false⟩ := by
+  obtain ⟨ha, hna, rfl, rfl, rfl, hva⟩ := hA
+  obtain ⟨hb, hnb, rfl, rfl, rfl, hvb⟩ := hB
+  obtain ⟨v, c⟩ := pl
+  simp only at hva hvb hstrict ⊢
+  have hi := nearest_index_lt f _ a ha hna
+  rw [numE_eq] at hi
+  simp only at hi
+  -- the working polyline and where `b` lands on it
+  have hw : ∃ e hb', e ≤ v.length ∧ edgeEnd ⟨v, c⟩ ha.index = e ∧
+      nearestOne f ⟨insertBefore v e ha.point, c⟩ b = .ok hb' ∧ hb'.point = hb.point := by
+    by_cases hin : ha.index + 1 < v.length
+    · obtain ⟨hb', hnb', hp, _⟩ := landing_inner f hf ⟨v, c⟩ a b ha hb hna hnb hin
+      exact ⟨ha.index + 1, hb', by omega, edgeEnd_inner _ _ _ (Or.inr hin), hnb', hp⟩
+    · have hc : c = true := by
+        cases c
+        · simp at hi; omega
+        · rfl
+      subst hc
+      simp only [if_true] at hi
+      have hia : ha.index + 1 = v.length := by omega
+      obtain ⟨hb', hnb', hp, _⟩ := landing_closing f hf ⟨v, true⟩ a b ha hb rfl hna hnb hia
+        (fun hne => hstrict rfl hia hne)
+      exact ⟨0, hb', by omega, edgeEnd_closing _ _ hia, by rw [insertBefore_zero]; exact hnb', hp⟩
+  obtain ⟨e, hb', hev, hee, hnb', hp⟩ := hw
+  have hidx : indexOfVertex (insertBefore v e ha.point) hb'.point atol = .ok e := by
+    rw [hp]; exact indexOfVertex_insert_hit v e _ _ atol hev hvb hAB
+  unfold slicedAtPointsWith withNearestVertex
+  simp only [hna, hva, hee, hnb', hidx]
+  simp only [Bool.false_and, Bool.false_eq_true, if_false]
+  rw [slicedAtIndices_lt _ _ _ _ (by omega)]
+  unfold insertBefore
+  have hlen : (v.take e).length = e := by simp [hev]
+  conv_lhs => rw [List.drop_left' hlen]
+  simp
+
+/-! ### flipping: positions and sub-paths on the flipped polyline -/
+
+theorem segPoint_swap (sg : V3 K × V3 K) (t : K) : segPoint (sg.2, sg.1) (1 - t) = segPoint sg t := by
+  unfold segPoint
+  ext <;> simp <;> ring
+
+theorem segments_length' (pl : Polyline K) :
+    pl.segments.length = if pl.closed then pl.v.length else pl.v.length - 1 := by
+  rw [segments_length, numE_eq]
+
+/-- **a polyline that does not touch itself still does not after `flipped()`** -/
+theorem simple_flipped {pl : Polyline K} (hS : Simple pl) : Simple (flipped pl) := by
+  constructor
+  · intro sg hsg
+    obtain ⟨k, hk⟩ := List.getElem?_of_mem hsg
+    have := (flipped_segment pl k sg hk).1
+    have := hS.1 _ (List.mem_of_getElem? this)
+    exact fun h => this h.symm
+  · intro i j sgi sgj hij hi hj s t hs0 hs1 ht0 ht1 heq
+    obtain ⟨hi', bi⟩ := flipped_segment pl i sgi hi
+    obtain ⟨hj', bj⟩ := flipped_segment pl j sgj hj
+    have heq' : segPoint (sgj.2, sgj.1) (1 - t) = segPoint (sgi.2, sgi.1) (1 - s) := by
+      rw [segPoint_swap, segPoint_swap]; exact heq.symm
+    have hlen : (flipped pl).segments.length = pl.segments.length := by
+      rw [segments_length', segments_length']; simp [Nearest.flipped]
+    have hcl : (flipped pl).closed = pl.closed := rfl
+    rw [hlen, hcl, segments_length']
+    unfold flipIdx at hi' hj'
+    by_cases hc : pl.closed = true ∧ j + 1 = pl.v.length
+    · -- `j` is the closing edge of the flipped polyline
+      rw [if_pos hc] at hj'
+      have hni : ¬ (pl.closed = true ∧ i + 1 = pl.v.length) := by omega
+      rw [if_neg hni] at hi'
+      rw [hc.1] at bi bj ⊢
+      simp only [if_true] at bi bj ⊢
+      have := hS.2 (pl.v.length - 2 - i) j _ _ (by omega) hi' hj' (1 - s) (1 - t) (by linarith) (by linarith)
+        (by linarith) (by linarith) heq'.symm
+      rw [segments_length', hc.1] at this
+      simp only [if_true] at this
+      rcases this with ⟨h1, h2, h3⟩ | ⟨_, h1, _, h2, h3⟩
+      · right
+        exact ⟨trivial, by omega, hc.2, by linarith, by linarith⟩
+      · left
+        exact ⟨by omega, by linarith, by linarith⟩
+    · rw [if_neg hc] at hj'
+      have hni : ¬ (pl.closed = true ∧ i + 1 = pl.v.length) := by
+        rintro ⟨h1, h2⟩
+        rw [h1] at bj
+        simp only [if_true] at bj
+        omega
+      rw [if_neg hni] at hi'
+      have hjb : j + 1 < pl.v.length := by
+        cases hcc : pl.closed
+        · rw [hcc] at bj; simp at bj; omega
+        · rw [hcc] at bj; simp only [if_true] at bj
+          have : j + 1 ≠ pl.v.length := fun h => hc ⟨hcc, h⟩
+          omega
+      have := hS.2 (pl.v.length - 2 - j) (pl.v.length - 2 - i) _ _ (by omega) hj' hi' (1 - t) (1 - s) (by linarith)
+        (by linarith) (by linarith) (by linarith) heq'
+      rw [segments_length'] at this
+      rcases this with ⟨h1, h2, h3⟩ | ⟨hcc, _, h1, _, _⟩
+      · left
+        exact ⟨by omega, by linarith, by linarith⟩
+      · rw [hcc] at h1
+        simp only [if_true] at h1
+        omega
+
+/-- the polyline with its vertex list reversed (what `flipped()` does to a sub-path) -/
+def revPath (p : Polyline K) : Polyline K := ⟨p.v.reverse, p.closed⟩
+
+/-- **the sub-path from `a` to `b` on the flipped polyline is the sub-path from `b` to `a` on the polyline, reversed**
+    (positions: segment `k` ↦ `flipIdx k`, parameter `t ↦ 1 − t`) -/
+theorem subPath_flipped (v : List (V3 K)) (closed : Bool) (i j : Nat) (ta tb : K) (Na Nb : V3 K)
+    (hi : i < (if closed then v.length else v.length - 1)) (hj : j < (if closed then v.length else v.length - 1)) :
+    subPath v.reverse closed (flipIdx closed v.length i) (1 - ta) Na (flipIdx closed v.length j) (1 - tb) Nb =
+      (subPath v closed j tb Nb i ta Na).map revPath := by
+  have ht : (1 - ta < 1 - tb) ↔ tb < ta := by constructor <;> intro h <;> linarith
+  unfold subPath flipIdx
+  cases closed
+  · -- open: only inner segments
+    simp only [Bool.false_eq_true, false_and, if_false] at hi hj ⊢
+    by_cases hb : j < i ∨ (j = i ∧ tb < ta)
+    · have hb' : v.length - 2 - i < v.length - 2 - j ∨ (v.length - 2 - i = v.length - 2 - j ∧ 1 - ta < 1 - tb) := by
+        rcases hb with h | ⟨h1, h2⟩
+        · left; omega
+        · right; exact ⟨by omega, ht.mpr h2⟩
+      have hji : j ≤ i := by rcases hb with h | ⟨h, _⟩ <;> omega
+      rw [if_pos hb, if_pos hb']
+      simp only [Except.map, revPath]
+      have e1 : v.length - 2 - i + 1 = v.length - 1 - i := by omega
+      have e2 : v.length - 2 - j - (v.length - 2 - i) = i - j := by omega
+      rw [e1, e2, rev_drop_idx v i (by omega), rev_take_take v i j hji (by omega)]
+      simp
+    · have hb' : ¬ (v.length - 2 - i < v.length - 2 - j ∨ (v.length - 2 - i = v.length - 2 - j ∧ 1 - ta < 1 - tb)) := by
+        rintro (h | ⟨h1, h2⟩)
+        · exact hb (Or.inl (by omega))
+        · exact hb (Or.inr ⟨by omega, ht.mp h2⟩)
+      rw [if_neg hb, if_neg hb']
+      rfl
+  · simp only [true_and, if_true] at hi hj ⊢
+    by_cases hic : i + 1 = v.length <;> by_cases hjc : j + 1 = v.length
+    · -- both on the closing edge
+      rw [if_pos hic, if_pos hjc]
+      have hij : i = j := by omega
+      subst hij
+      by_cases hb : tb < ta
+      · rw [if_pos (Or.inr ⟨rfl, ht.mpr hb⟩), if_pos (Or.inr ⟨rfl, hb⟩)]
+        simp [Except.map, revPath]
+      · rw [if_neg (by rintro (h | ⟨_, h⟩); omega; exact hb (ht.mp h)),
+          if_neg (by rintro (h | ⟨_, h⟩); omega; exact hb h)]
+        simp only [Except.map, revPath]
+        rw [List.drop_of_length_le (by simp; omega), List.take_of_length_le (by simp; omega),
+          List.drop_of_length_le (by omega), List.take_of_length_le (by omega)]
+        simp
+    · -- `a` on the closing edge, `b` inner
+      rw [if_pos hic, if_neg hjc]
+      rw [if_neg (by rintro (h | ⟨h, _⟩) <;> omega), if_pos (Or.inl (by omega))]
+      simp only [Except.map, revPath]
+      have e1 : v.length - 2 - j + 1 = v.length - 1 - j := by omega
+      rw [List.drop_of_length_le (by simp; omega), e1, rev_take_idx v j (by omega),
+        List.take_of_length_le (by simp; omega)]
+      simp
+    · -- `a` inner, `b` on the closing edge
+      rw [if_neg hic, if_pos hjc]
+      rw [if_pos (Or.inl (by omega)), if_neg (by rintro (h | ⟨h, _⟩) <;> omega)]
+      simp only [Except.map, revPath]
+      have e1 : v.length - 2 - i + 1 = v.length - 1 - i := by omega
+      rw [e1, rev_drop_idx v i (by omega), List.take_of_length_le (by simp; omega),
+        List.drop_of_length_le (by omega)]
+      simp
+    · -- both inner
+      rw [if_neg hic, if_neg hjc]
+      have e1 : v.length - 2 - i + 1 = v.length - 1 - i := by omega
+      have e3 : v.length - 2 - j + 1 = v.length - 1 - j := by omega
+      by_cases hb : j < i ∨ (j = i ∧ tb < ta)
+      · have hb' : v.length - 2 - i < v.length - 2 - j ∨ (v.length - 2 - i = v.length - 2 - j ∧ 1 - ta < 1 - tb) := by
+          rcases hb with h | ⟨h1, h2⟩
+          · left; omega
+          · right; exact ⟨by omega, ht.mpr h2⟩
+        have hji : j ≤ i := by rcases hb with h | ⟨h, _⟩ <;> omega
+        rw [if_pos hb, if_pos hb']
+        simp only [Except.map, revPath]
+        have e2 : v.length - 2 - j - (v.length - 2 - i) = i - j := by omega
+        rw [e1, e2, rev_drop_idx v i (by omega), rev_take_take v i j hji (by omega)]
+        simp
+      · have hb' : ¬ (v.length - 2 - i < v.length - 2 - j ∨ (v.length - 2 - i = v.length - 2 - j ∧ 1 - ta < 1 - tb)) := by
+          rintro (h | ⟨h1, h2⟩)
+          · exact hb (Or.inl (by omega))
+          · exact hb (Or.inr ⟨by omega, ht.mp h2⟩)
+        rw [if_neg hb, if_neg hb']
+        simp only [Except.map, revPath]
+        rw [e1, e3, rev_drop_idx v i (by omega), rev_take_idx v j (by omega)]
+        simp
+
 /-! ### aligned_along_subsegment -/
 
 theorem flipped_flipped (pl : Polyline K) : flipped (flipped pl) = pl := by
@@ -830,6 +1777,618 @@ theorem C07_nearest_opt_stacked (pl : Polyline ℝ) (qs : List (V3 ℝ)) (r : Re
     · intro sg' hsg' u hu0 hu1
       exact nearest_opt_of_mono Real.sqrt (fun x y _ h => Real.sqrt_le_sqrt h) qs[j] s ss sg' hsg' u hu0 hu1
 
+/-! ### closed polylines: the two sub-paths are the two ways round (lengths, over ℝ) -/
+
+section lengths
+
+/-- `|b − a|` -/
+noncomputable def seglen (a b : V3 ℝ) : ℝ := Real.sqrt ((b - a).normSq)
+
+/-- length of the open path through the listed points -/
+noncomputable def pathLen : List (V3 ℝ) → ℝ
+  | a :: b :: r => seglen a b + pathLen (b :: r)
+  | [_] => 0
+  | [] => 0
+
+@[simp] theorem pathLen_nil : pathLen [] = 0 := by unfold pathLen; rfl
+@[simp] theorem pathLen_single (a : V3 ℝ) : pathLen [a] = 0 := by unfold pathLen; rfl
+@[simp] theorem pathLen_cons_cons (a b : V3 ℝ) (r : List (V3 ℝ)) :
+    pathLen (a :: b :: r) = seglen a b + pathLen (b :: r) := by rw [pathLen]
+
+/-- a path is the sum of its two parts at any of its points -/
+theorem pathLen_append_cons (l1 : List (V3 ℝ)) (x : V3 ℝ) (l2 : List (V3 ℝ)) :
+    pathLen (l1 ++ x :: l2) = pathLen (l1 ++ [x]) + pathLen (x :: l2) := by
+  induction l1 with
+  | nil => simp
+  | cons a l1 ih =>
+    cases l1 with
+    | nil => simp
+    | cons b l1 =>
+      simp only [List.cons_append, pathLen_cons_cons] at ih ⊢
+      linarith
+
+theorem totalLength_eq_sum (pl : Polyline ℝ) :
+    totalLength pl = (pl.segments.map fun s => seglen s.1 s.2).sum := by
+  unfold totalLength
+  rw [List.sum_eq_foldl]
+  rfl
+
+theorem sum_consec (l : List (V3 ℝ)) : ((l.zip l.tail).map fun s => seglen s.1 s.2).sum = pathLen l := by
+  induction l with
+  | nil => simp
+  | cons a l ih =>
+    cases l with
+    | nil => simp
+    | cons b r =>
+      simp only [List.tail_cons, List.zip_cons_cons, List.map_cons, List.sum_cons, pathLen_cons_cons] at ih ⊢
+      rw [ih]
+
+/-- `total_length` of an open polyline is the length of the path through its vertices -/
+theorem totalLength_open (l : List (V3 ℝ)) : totalLength ⟨l, false⟩ = pathLen l := by
+  rw [totalLength_eq_sum, ← sum_consec]
+  cases l with
+  | nil => simp [Polyline.segments]
+  | cons a rest => simp [Polyline.segments]
+
+/-- `total_length` of a closed polyline is the length of the path through its vertices and back to the first -/
+theorem totalLength_closed (a : V3 ℝ) (rest : List (V3 ℝ)) :
+    totalLength ⟨a :: rest, true⟩ = pathLen (a :: rest ++ [a]) := by
+  rw [totalLength_eq_sum, ← sum_consec]
+  simp only [Polyline.segments, if_true, List.cons_append, List.tail_cons]
+  have h1 : a :: (rest ++ [a]) = (a :: rest) ++ [a] := rfl
+  have h2 : (rest ++ [a]) = (rest ++ [a]) ++ [] := by simp
+  conv_rhs => rw [h1, h2, List.zip_append (by simp)]
+  simp
+
+theorem seglen_param (x y : V3 ℝ) (s t : ℝ) (hst : s ≤ t) :
+    seglen (x + V3.smul s (y - x)) (x + V3.smul t (y - x)) = (t - s) * seglen x y := by
+  unfold seglen
+  have : ((x + V3.smul t (y - x)) - (x + V3.smul s (y - x))).normSq = (t - s) * (t - s) * (y - x).normSq := by
+    simp only [V3.normSq_def, V3.add_x, V3.add_y, V3.add_z, V3.sub_x, V3.sub_y, V3.sub_z,
+      V3.smul_x, V3.smul_y, V3.smul_z]
+    ring
+  rw [this, Real.sqrt_mul (mul_self_nonneg _), Real.sqrt_mul_self (by linarith)]
+
+theorem smul_zero_pt (x y : V3 ℝ) : x + V3.smul 0 (y - x) = x := by ext <;> simp
+theorem smul_one_pt (x y : V3 ℝ) : x + V3.smul 1 (y - x) = y := by ext <;> simp
+
+/-- a point of a segment cuts its length in two -/
+theorem seglen_cut (x y : V3 ℝ) (t : ℝ) (ht0 : 0 ≤ t) (ht1 : t ≤ 1) :
+    seglen x (x + V3.smul t (y - x)) + seglen (x + V3.smul t (y - x)) y = seglen x y := by
+  have h1 := seglen_param x y 0 t ht0
+  have h2 := seglen_param x y t 1 ht1
+  rw [smul_zero_pt] at h1
+  rw [smul_one_pt] at h2
+  rw [h1, h2]; ring
+
+/-- two points of one segment, in order -/
+theorem seglen_cut2 (x y : V3 ℝ) (s t : ℝ) (hst : s ≤ t) (ht1 : t ≤ 1) :
+    seglen (x + V3.smul s (y - x)) (x + V3.smul t (y - x)) + seglen (x + V3.smul t (y - x)) y =
+      seglen (x + V3.smul s (y - x)) y := by
+  have h1 := seglen_param x y s t hst
+  have h2 := seglen_param x y t 1 ht1
+  have h3 := seglen_param x y s 1 (le_trans hst ht1)
+  rw [smul_one_pt] at h2 h3
+  rw [h1, h2, h3]; ring
+
+/-- cutting a path at a point `N` of its edge `X Y` -/
+theorem pathLen_cut (L1 : List (V3 ℝ)) (X Y : V3 ℝ) (L2 : List (V3 ℝ)) (N : V3 ℝ)
+    (hN : seglen X N + seglen N Y = seglen X Y) :
+    pathLen (L1 ++ [X] ++ [N]) + pathLen (N :: Y :: L2) = pathLen (L1 ++ X :: Y :: L2) := by
+  have e1 : L1 ++ [X] ++ [N] = L1 ++ X :: [N] := by simp
+  rw [e1, pathLen_append_cons L1 X [N], pathLen_append_cons L1 X (Y :: L2)]
+  simp only [pathLen_cons_cons, pathLen_single]
+  linarith
+
+theorem getElem?_split_two {α : Type} (W : List α) (i : Nat) (x y : α) (hx : W[i]? = some x)
+    (hy : W[i + 1]? = some y) :
+    W = W.take i ++ x :: y :: W.drop (i + 2) ∧ W.take (i + 1) = W.take i ++ [x] ∧
+      W.drop (i + 1) = y :: W.drop (i + 2) := by
+  have h1 : i + 1 < W.length := (List.getElem?_eq_some_iff.mp hy).1
+  have hxe : W[i] = x := (List.getElem?_eq_some_iff.mp hx).2
+  have hye : W[i + 1] = y := (List.getElem?_eq_some_iff.mp hy).2
+  have d1 : W.drop i = x :: W.drop (i + 1) := by rw [← hxe]; exact List.drop_eq_getElem_cons (by omega)
+  have d2 : W.drop (i + 1) = y :: W.drop (i + 2) := by rw [← hye]; exact List.drop_eq_getElem_cons h1
+  refine ⟨?_, ?_, d2⟩
+  · rw [← d2, ← d1, List.take_append_drop]
+  · rw [List.take_add_one, hx]; rfl
+
+/-- **two cuts**: a path `W` cut at `Na` (on its edge `i`) and at `Nb` (on its edge `j ≥ i`; when `j = i`, after
+    `Na` on that edge) falls into three pieces whose lengths add up -/
+theorem pathLen_two_cuts (W : List (V3 ℝ)) (i j : Nat) (hij : i ≤ j) (xi yi xj yj Na Nb : V3 ℝ)
+    (hxi : W[i]? = some xi) (hyi : W[i + 1]? = some yi) (hxj : W[j]? = some xj) (hyj : W[j + 1]? = some yj)
+    (hNa : seglen xi Na + seglen Na yi = seglen xi yi)
+    (hNb : (i < j → seglen xj Nb + seglen Nb yj = seglen xj yj) ∧
+      (i = j → seglen Na Nb + seglen Nb yi = seglen Na yi)) :
+    pathLen (W.take (i + 1) ++ [Na]) + pathLen (Na :: (W.drop (i + 1)).take (j - i) ++ [Nb])
+      + pathLen (Nb :: W.drop (j + 1)) = pathLen W := by
+  obtain ⟨eW, eT, eD⟩ := getElem?_split_two W i xi yi hxi hyi
+  have c1 := pathLen_cut (W.take i) xi yi (W.drop (i + 2)) Na hNa
+  rw [← eW, ← eT, ← eD] at c1
+  rw [← c1]
+  rcases Nat.lt_or_ge i j with hlt | hge
+  · -- second cut on a later edge of `W2 = Na :: W.drop (i+1)`
+    set W2 := Na :: W.drop (i + 1) with hW2
+    have g1 : W2[j - i]? = some xj := by
+      obtain ⟨k, hk⟩ : ∃ k, j - i = k + 1 := ⟨j - i - 1, by omega⟩
+      rw [hk, hW2, List.getElem?_cons_succ, List.getElem?_drop]
+      have : i + 1 + k = j := by omega
+      rw [this]; exact hxj
+    have g2 : W2[j - i + 1]? = some yj := by
+      rw [hW2, List.getElem?_cons_succ, List.getElem?_drop]
+      have : i + 1 + (j - i) = j + 1 := by omega
+      rw [this]; exact hyj
+    obtain ⟨eW2, eT2, eD2⟩ := getElem?_split_two W2 (j - i) xj yj g1 g2
+    have c2 := pathLen_cut (W2.take (j - i)) xj yj (W2.drop (j - i + 2)) Nb (hNb.1 hlt)
+    rw [← eW2, ← eT2, ← eD2] at c2
+    have t2 : W2.take (j - i + 1) = Na :: (W.drop (i + 1)).take (j - i) := by
+      rw [hW2, List.take_succ_cons]
+    have d2 : W2.drop (j - i + 1) = W.drop (j + 1) := by
+      rw [hW2, List.drop_succ_cons, List.drop_drop]
+      congr 1; omega
+    rw [t2, d2] at c2
+    rw [← c2]
+    simp only [List.cons_append]
+    ring
+  · have he : i = j := by omega
+    subst he
+    have c2 := pathLen_cut [] Na yi (W.drop (i + 2)) Nb (hNb.2 rfl)
+    rw [← eD] at c2
+    have hy : yj = yi := Option.some.inj (hyj.symm.trans hyi)
+    simp only [Nat.sub_self, List.take_zero, List.nil_append, List.cons_append] at c2 ⊢
+    rw [← c2]
+    ring
+
+/-- segment `k` of a closed polyline joins entries `k` and `k + 1` of "the vertices and back to the first" -/
+theorem closed_segment_get (a0 : V3 ℝ) (rest : List (V3 ℝ)) (k : Nat) (sg : V3 ℝ × V3 ℝ)
+    (h : (⟨a0 :: rest, true⟩ : Polyline ℝ).segments[k]? = some sg) :
+    (a0 :: rest ++ [a0])[k]? = some sg.1 ∧ (a0 :: rest ++ [a0])[k + 1]? = some sg.2 ∧ k < (a0 :: rest).length := by
+  simp only [Polyline.segments, if_true] at h
+  rw [List.getElem?_zip_eq_some] at h
+  obtain ⟨h1, h2⟩ := h
+  have hk : k < (a0 :: rest).length := (List.getElem?_eq_some_iff.mp h1).1
+  refine ⟨?_, ?_, hk⟩
+  · rw [List.getElem?_append_left hk]; exact h1
+  · show (a0 :: (rest ++ [a0]))[k + 1]? = _
+    rw [List.getElem?_cons_succ]; exact h2
+
+/-- the forward sub-path and the wrapping sub-path between two positions of a closed polyline are the two ways
+    round: their lengths add up to the length of the loop -/
+theorem subPath_lengths_fwd (a0 : V3 ℝ) (rest : List (V3 ℝ)) (i j : Nat) (sgi sgj : V3 ℝ × V3 ℝ)
+    (hi : (⟨a0 :: rest, true⟩ : Polyline ℝ).segments[i]? = some sgi)
+    (hj : (⟨a0 :: rest, true⟩ : Polyline ℝ).segments[j]? = some sgj)
+    (ta tb : ℝ) (hta0 : 0 ≤ ta) (hta1 : ta ≤ 1) (htb0 : 0 ≤ tb) (htb1 : tb ≤ 1)
+    (hlt : i < j ∨ (i = j ∧ ta < tb)) :
+    pathLen (segPoint sgi ta :: ((a0 :: rest).drop (i + 1)).take (j - i) ++ [segPoint sgj tb]) +
+      pathLen (segPoint sgj tb :: (a0 :: rest).drop (j + 1) ++ (a0 :: rest).take (i + 1) ++ [segPoint sgi ta]) =
+    pathLen (a0 :: rest ++ [a0]) := by
+  obtain ⟨gi1, gi2, hin⟩ := closed_segment_get a0 rest i sgi hi
+  obtain ⟨gj1, gj2, hjn⟩ := closed_segment_get a0 rest j sgj hj
+  have hij : i ≤ j := by rcases hlt with h | ⟨h, _⟩ <;> omega
+  set v := a0 :: rest with hv
+  have key := pathLen_two_cuts (v ++ [a0]) i j hij sgi.1 sgi.2 sgj.1 sgj.2 (segPoint sgi ta) (segPoint sgj tb)
+    gi1 gi2 gj1 gj2 (seglen_cut _ _ ta hta0 hta1) ⟨fun _ => seglen_cut _ _ tb htb0 htb1, by
+      intro he
+      subst he
+      have hs : sgj = sgi := Option.some.inj (hj.symm.trans hi)
+      rw [hs]
+      rcases hlt with h | ⟨_, h⟩
+      · omega
+      · exact seglen_cut2 _ _ ta tb (le_of_lt h) htb1⟩
+  have e1 : (v ++ [a0]).take (i + 1) = v.take (i + 1) := List.take_append_of_le_length (by omega)
+  have e2 : ((v ++ [a0]).drop (i + 1)).take (j - i) = (v.drop (i + 1)).take (j - i) := by
+    rw [List.drop_append_of_le_length (by omega), List.take_append_of_le_length (by simp; omega)]
+  have e3 : (v ++ [a0]).drop (j + 1) = v.drop (j + 1) ++ [a0] := List.drop_append_of_le_length (by omega)
+  rw [e1, e2, e3] at key
+  have e4 : v.take (i + 1) = a0 :: rest.take i := by rw [hv, List.take_succ_cons]
+  have e5 : segPoint sgj tb :: v.drop (j + 1) ++ v.take (i + 1) ++ [segPoint sgi ta] =
+      (segPoint sgj tb :: v.drop (j + 1)) ++ a0 :: (rest.take i ++ [segPoint sgi ta]) := by
+    rw [e4]; simp
+  rw [e5, pathLen_append_cons (segPoint sgj tb :: v.drop (j + 1)) a0 (rest.take i ++ [segPoint sgi ta]), ← key, e4]
+  simp only [List.cons_append]
+  ring
+
+/-- **the two sub-paths between two different positions of a closed polyline cover the loop once**: `subPath` from
+    `(i, ta)` to `(j, tb)` and `subPath` from `(j, tb)` to `(i, ta)` both exist and their lengths add up to the
+    polyline's `total_length` -/
+theorem subPath_lengths_closed (v : List (V3 ℝ)) (i j : Nat) (sgi sgj : V3 ℝ × V3 ℝ)
+    (hi : (⟨v, true⟩ : Polyline ℝ).segments[i]? = some sgi) (hj : (⟨v, true⟩ : Polyline ℝ).segments[j]? = some sgj)
+    (ta tb : ℝ) (hta0 : 0 ≤ ta) (hta1 : ta ≤ 1) (htb0 : 0 ≤ tb) (htb1 : tb ≤ 1) (hne : i ≠ j ∨ ta ≠ tb) :
+    ∃ s12 s21, subPath v true i ta (segPoint sgi ta) j tb (segPoint sgj tb) = .ok s12 ∧
+      subPath v true j tb (segPoint sgj tb) i ta (segPoint sgi ta) = .ok s21 ∧
+      totalLength s12 + totalLength s21 = totalLength ⟨v, true⟩ := by
+  cases v with
+  | nil => simp [Polyline.segments] at hi
+  | cons a0 rest =>
+    by_cases hlt : i < j ∨ (i = j ∧ ta < tb)
+    · have hnot : ¬ (j < i ∨ (j = i ∧ tb < ta)) := by
+        rintro (h | ⟨h1, h2⟩)
+        · rcases hlt with h' | ⟨h', _⟩ <;> omega
+        · rcases hlt with h' | ⟨_, h'⟩
+          · omega
+          · linarith
+      refine ⟨_, _, by unfold subPath; rw [if_pos hlt], by unfold subPath; rw [if_neg hnot, if_pos rfl], ?_⟩
+      rw [totalLength_open, totalLength_open, totalLength_closed]
+      exact subPath_lengths_fwd a0 rest i j sgi sgj hi hj ta tb hta0 hta1 htb0 htb1 hlt
+    · have hgt : j < i ∨ (j = i ∧ tb < ta) := by
+        rcases Nat.lt_trichotomy i j with h | h | h
+        · exact absurd (Or.inl h) hlt
+        · right
+          refine ⟨h.symm, ?_⟩
+          rcases hne with h' | h'
+          · exact absurd h h'
+          · rcases lt_trichotomy ta tb with h'' | h'' | h''
+            · exact absurd (Or.inr ⟨h, h''⟩) hlt
+            · exact absurd h'' h'
+            · exact h''
+        · exact Or.inl h
+      refine ⟨_, _, by unfold subPath; rw [if_neg hlt, if_pos rfl], by unfold subPath; rw [if_pos hgt], ?_⟩
+      rw [totalLength_open, totalLength_open, totalLength_closed, add_comm]
+      exact subPath_lengths_fwd a0 rest j i sgj sgi hj hi tb ta htb0 htb1 hta0 hta1 hgt
+
+theorem sqrt_order_embedding : ∀ x y : ℝ, 0 ≤ x → 0 ≤ y → (Real.sqrt x ≤ Real.sqrt y ↔ x ≤ y) :=
+  fun _ _ _ hy => Real.sqrt_le_sqrt_iff hy
+
+theorem vertexMatches_comm {K : Type} [Field K] [LinearOrder K] [IsStrictOrderedRing K] (p v : V3 K) (atol : K) :
+    vertexMatches p atol v = vertexMatches v atol p := by
+  rw [Bool.eq_iff_iff, vertexMatches_iff, vertexMatches_iff, abs_sub_comm v.x, abs_sub_comm v.y, abs_sub_comm v.z]
+
+theorem vertexMatches_self {K : Type} [Field K] [LinearOrder K] [IsStrictOrderedRing K] (p : V3 K) (atol : K)
+    (hatol : 0 ≤ atol) : vertexMatches p atol p = true := by
+  rw [vertexMatches_iff]; simp [hatol]
+
+/-- what `LandsInside` says about the landing point: it is the point at parameter `t` of segment `i` -/
+theorem LandsInside.point_eq {K : Type} [Field K] [LinearOrder K] [IsStrictOrderedRing K]
+    {f : K → K} {pl : Polyline K} {atol : K} {q : V3 K} {i : Nat} {t : K} {N : V3 K}
+    (h : LandsInside f pl atol q i t N) :
+    ∃ sg, pl.segments[i]? = some sg ∧ N = segPoint sg t ∧ 0 ≤ t ∧ t ≤ 1 := by
+  obtain ⟨hh, hn, rfl, rfl, rfl, _⟩ := h
+  obtain ⟨sg, hsg⟩ : ∃ sg, pl.segments[hh.index]? = some sg := by
+    have := (nearestOne_firstMin f pl q hh hn).1
+    rw [List.getElem?_map] at this
+    obtain ⟨sg, hsg, _⟩ := Option.map_eq_some_iff.mp this
+    exact ⟨sg, hsg⟩
+  have r := nearest_row f pl q hh hn sg hsg
+  refine ⟨sg, hsg, ?_, ?_, ?_⟩
+  · rw [r.1, r.2.1]; rfl
+  · rw [r.2.1]; exact (closest_t_range _ _ _).1
+  · rw [r.2.1]; exact (closest_t_range _ _ _).2.1
+
+/-- **closed polylines: `sliced_at_points(a, b)` and `sliced_at_points(b, a)` are the two ways round.**  Under the
+    original-polyline hypotheses of `sliced_at_points_original` (in both directions) both calls succeed and the
+    lengths of the two results add up to the `total_length` of the loop. -/
+theorem closed_subpaths_cover_loop (pl : Polyline ℝ) (a b : V3 ℝ) (atol : ℝ) (hatol : 0 ≤ atol) (i j : Nat)
+    (ta tb : ℝ) (Na Nb : V3 ℝ) (hclosed : pl.closed = true)
+    (hA : LandsInside Real.sqrt pl atol a i ta Na) (hB : LandsInside Real.sqrt pl atol b j tb Nb)
+    (hAB : vertexMatches Nb atol Na = false)
+    (hsb : i + 1 = pl.v.length → j ≠ i → ∀ sg, pl.segments[i]? = some sg →
+      (Nb - b).normSq < (closestPoint b sg.1 (sg.2 - sg.1) - b).normSq)
+    (hsa : j + 1 = pl.v.length → i ≠ j → ∀ sg, pl.segments[j]? = some sg →
+      (Na - a).normSq < (closestPoint a sg.1 (sg.2 - sg.1) - a).normSq) :
+    ∃ s12 s21, slicedAtPoints pl a b atol = .ok s12 ∧ slicedAtPoints pl b a atol = .ok s21 ∧
+      totalLength s12 + totalLength s21 = totalLength pl := by
+  obtain ⟨sgi, hi, hNa, hta0, hta1⟩ := hA.point_eq
+  obtain ⟨sgj, hj, hNb, htb0, htb1⟩ := hB.point_eq
+  have hne : i ≠ j ∨ ta ≠ tb := by
+    by_contra hcon
+    obtain ⟨h1, h2⟩ := not_or.mp hcon
+    have h1 := not_not.mp h1
+    have h2 := not_not.mp h2
+    subst h1 h2
+    have hs : sgj = sgi := Option.some.inj (hj.symm.trans hi)
+    rw [hNa, hNb, hs, vertexMatches_self _ _ hatol] at hAB
+    cases hAB
+  have e12 := sliced_at_points_original Real.sqrt sqrt_order_embedding pl a b atol hatol i j ta tb Na Nb hA hB hAB
+    (fun _ => hsb)
+  have e21 := sliced_at_points_original Real.sqrt sqrt_order_embedding pl b a atol hatol j i tb ta Nb Na hB hA
+    (by rw [vertexMatches_comm]; exact hAB) (fun _ => hsa)
+  obtain ⟨v, c⟩ := pl
+  simp only at hclosed
+  subst hclosed
+  obtain ⟨s12, s21, h12, h21, hsum⟩ := subPath_lengths_closed v i j sgi sgj hi hj ta tb hta0 hta1 htb0 htb1 hne
+  refine ⟨s12, s21, ?_, ?_, hsum⟩
+  · show slicedAtPointsWith Real.sqrt _ a b atol = _
+    rw [e12, hNa, hNb]; exact h12
+  · show slicedAtPointsWith Real.sqrt _ b a atol = _
+    rw [e21, hNa, hNb]; exact h21
+
+/-- **"the shorter way round"**: under the same hypotheses `aligned_along_subsegment(a, b)` flips the closed polyline
+    exactly when the way from `Na` to `Nb` is longer than the other way round, i.e. longer than half the loop -/
+theorem aligned_closed_shorter (pl : Polyline ℝ) (a b : V3 ℝ) (atol : ℝ) (hatol : 0 ≤ atol) (i j : Nat)
+    (ta tb : ℝ) (Na Nb : V3 ℝ) (hclosed : pl.closed = true)
+    (hA : LandsInside Real.sqrt pl atol a i ta Na) (hB : LandsInside Real.sqrt pl atol b j tb Nb)
+    (hAB : vertexMatches Nb atol Na = false)
+    (hsb : i + 1 = pl.v.length → j ≠ i → ∀ sg, pl.segments[i]? = some sg →
+      (Nb - b).normSq < (closestPoint b sg.1 (sg.2 - sg.1) - b).normSq)
+    (hsa : j + 1 = pl.v.length → i ≠ j → ∀ sg, pl.segments[j]? = some sg →
+      (Na - a).normSq < (closestPoint a sg.1 (sg.2 - sg.1) - a).normSq) :
+    ∃ s12 s21, slicedAtPoints pl a b atol = .ok s12 ∧ slicedAtPoints pl b a atol = .ok s21 ∧
+      totalLength s12 + totalLength s21 = totalLength pl ∧
+      alignedAlongSubsegment pl a b atol =
+        .ok (if totalLength pl < 2 * totalLength s12 then flipped pl else pl) := by
+  obtain ⟨s12, s21, h12, h21, hsum⟩ := closed_subpaths_cover_loop pl a b atol hatol i j ta tb Na Nb hclosed hA hB hAB
+    hsb hsa
+  refine ⟨s12, s21, h12, h21, hsum, ?_⟩
+  rw [aligned_closed_spec pl a b atol s12 s21 hclosed h21 h12]
+  have : totalLength s21 < totalLength s12 ↔ totalLength pl < 2 * totalLength s12 := by
+    rw [← hsum]; constructor <;> intro h <;> linarith
+  by_cases h : totalLength s21 < totalLength s12
+  · rw [if_pos h, if_pos (this.mp h)]
+  · rw [if_neg h, if_neg (fun h' => h (this.mpr h'))]
+
+end lengths
+
+/-! ### simple polylines, points on the path: the sub-path clause without hypotheses about `nearest` -/
+
+/-- `sliced_at_points` itself (distances compared after `sqrt`, as in the code) on a simple polyline, for two points
+    on it: the sub-path between them -/
+theorem sliced_at_points_on_path_real (pl : Polyline ℝ) (hS : Simple pl) (atol : ℝ) (hatol : 0 ≤ atol)
+    (i j : Nat) (sgi sgj : V3 ℝ × V3 ℝ) (hi : pl.segments[i]? = some sgi) (hj : pl.segments[j]? = some sgj)
+    (ta tb : ℝ) (hta0 : 0 < ta) (hta1 : ta < 1) (htb0 : 0 < tb) (htb1 : tb < 1)
+    (hfa : FarFromVertices pl.v (segPoint sgi ta) atol) (hfb : FarFromVertices pl.v (segPoint sgj tb) atol)
+    (hab : ¬ (|(segPoint sgi ta).x - (segPoint sgj tb).x| ≤ atol ∧ |(segPoint sgi ta).y - (segPoint sgj tb).y| ≤ atol ∧
+      |(segPoint sgi ta).z - (segPoint sgj tb).z| ≤ atol)) :
+    slicedAtPoints pl (segPoint sgi ta) (segPoint sgj tb) atol =
+      subPath pl.v pl.closed i ta (segPoint sgi ta) j tb (segPoint sgj tb) :=
+  sliced_at_points_on_path Real.sqrt sqrt_order_embedding pl hS atol hatol i j sgi sgj hi hj ta tb hta0 hta1 htb0 htb1
+    hfa hfb hab
+
+/-- **closed simple polyline, two points on it**: `sliced_at_points(a, b)` and `sliced_at_points(b, a)` both succeed,
+    their lengths add up to the length of the loop (they are the two ways round), and `aligned_along_subsegment(a, b)`
+    flips the polyline exactly when the way from `a` to `b` is longer than half the loop.  No hypothesis about
+    `nearest`. -/
+theorem aligned_closed_on_path (pl : Polyline ℝ) (hS : Simple pl) (hclosed : pl.closed = true)
+    (atol : ℝ) (hatol : 0 ≤ atol)
+    (i j : Nat) (sgi sgj : V3 ℝ × V3 ℝ) (hi : pl.segments[i]? = some sgi) (hj : pl.segments[j]? = some sgj)
+    (ta tb : ℝ) (hta0 : 0 < ta) (hta1 : ta < 1) (htb0 : 0 < tb) (htb1 : tb < 1)
+    (hfa : FarFromVertices pl.v (segPoint sgi ta) atol) (hfb : FarFromVertices pl.v (segPoint sgj tb) atol)
+    (hab : ¬ (|(segPoint sgi ta).x - (segPoint sgj tb).x| ≤ atol ∧ |(segPoint sgi ta).y - (segPoint sgj tb).y| ≤ atol ∧
+      |(segPoint sgi ta).z - (segPoint sgj tb).z| ≤ atol)) :
+    ∃ s12 s21, slicedAtPoints pl (segPoint sgi ta) (segPoint sgj tb) atol = .ok s12 ∧
+      slicedAtPoints pl (segPoint sgj tb) (segPoint sgi ta) atol = .ok s21 ∧
+      .ok s12 = subPath pl.v true i ta (segPoint sgi ta) j tb (segPoint sgj tb) ∧
+      .ok s21 = subPath pl.v true j tb (segPoint sgj tb) i ta (segPoint sgi ta) ∧
+      totalLength s12 + totalLength s21 = totalLength pl ∧
+      alignedAlongSubsegment pl (segPoint sgi ta) (segPoint sgj tb) atol =
+        .ok (if totalLength pl < 2 * totalLength s12 then flipped pl else pl) := by
+  obtain ⟨lA, sA⟩ := on_path_lands Real.sqrt sqrt_order_embedding pl hS atol i sgi hi ta hta0 hta1 hfa
+  obtain ⟨lB, sB⟩ := on_path_lands Real.sqrt sqrt_order_embedding pl hS atol j sgj hj tb htb0 htb1 hfb
+  have hAB : vertexMatches (segPoint sgj tb) atol (segPoint sgi ta) = false := by
+    cases hm : vertexMatches (segPoint sgj tb) atol (segPoint sgi ta) with
+    | false => rfl
+    | true => exact absurd ((vertexMatches_iff _ _ _).mp hm) hab
+  obtain ⟨s12, s21, h12, h21, hsum, hal⟩ := aligned_closed_shorter pl _ _ atol hatol i j ta tb _ _ hclosed lA lB hAB
+    (fun _ hne sg hsg => sB i sg hne.symm hsg) (fun _ hne sg hsg => sA j sg hne.symm hsg)
+  refine ⟨s12, s21, h12, h21, ?_, ?_, hsum, hal⟩
+  · have := sliced_at_points_on_path_real pl hS atol hatol i j sgi sgj hi hj ta tb hta0 hta1 htb0 htb1 hfa hfb hab
+    rw [h12, hclosed] at this
+    exact this
+  · have := sliced_at_points_on_path_real pl hS atol hatol j i sgj sgi hj hi tb ta htb0 htb1 hta0 hta1 hfb hfa
+      (by rw [abs_sub_comm (segPoint sgj tb).x, abs_sub_comm (segPoint sgj tb).y, abs_sub_comm (segPoint sgj tb).z]
+          exact hab)
+    rw [h21, hclosed] at this
+    exact this
+
+/-- **open simple polyline, two points on it**: `aligned_along_subsegment(a, b)` flips the polyline exactly when `b`
+    comes before `a` along it (earlier segment, or same segment and smaller parameter) -/
+theorem aligned_open_on_path (pl : Polyline ℝ) (hS : Simple pl) (hopen : pl.closed = false) (atol : ℝ)
+    (i j : Nat) (sgi sgj : V3 ℝ × V3 ℝ) (hi : pl.segments[i]? = some sgi) (hj : pl.segments[j]? = some sgj)
+    (ta tb : ℝ) (hta0 : 0 < ta) (hta1 : ta < 1) (htb0 : 0 < tb) (htb1 : tb < 1) :
+    alignedAlongSubsegment pl (segPoint sgi ta) (segPoint sgj tb) atol =
+      .ok (if j < i ∨ (j = i ∧ tb < ta) then flipped pl else pl) := by
+  obtain ⟨⟨ha, hna, ia, ta', _, _⟩, _⟩ :=
+    nearest_on_simple Real.sqrt sqrt_order_embedding pl hS i sgi hi ta hta0 hta1
+  obtain ⟨⟨hb, hnb, ib, tb', _, _⟩, _⟩ :=
+    nearest_on_simple Real.sqrt sqrt_order_embedding pl hS j sgj hj tb htb0 htb1
+  rw [aligned_open_spec pl _ _ atol ha hb hopen hna hnb, ia, ib, ta', tb']
+
+/-! ### the returned orientation of `aligned_along_subsegment` -/
+
+theorem subPath_open_result {K : Type} [Field K] [LinearOrder K] [IsStrictOrderedRing K]
+    (v : List (V3 K)) (closed : Bool) (i j : Nat) (ta tb : K) (Na Nb : V3 K) (s : Polyline K)
+    (h : subPath v closed i ta Na j tb Nb = .ok s) : s.closed = false := by
+  unfold subPath at h
+  split_ifs at h
+  · injection h with h; rw [← h]
+  · injection h with h; rw [← h]
+
+theorem seglen_comm (a b : V3 ℝ) : seglen a b = seglen b a := by
+  unfold seglen
+  congr 1
+  simp only [V3.normSq_def, V3.sub_x, V3.sub_y, V3.sub_z]
+  ring
+
+theorem pathLen_reverse (l : List (V3 ℝ)) : pathLen l.reverse = pathLen l := by
+  induction l with
+  | nil => simp
+  | cons a l ih =>
+    cases l with
+    | nil => simp
+    | cons b r =>
+      have e : (a :: b :: r).reverse = r.reverse ++ b :: [a] := by simp
+      rw [e, pathLen_append_cons r.reverse b [a]]
+      have e2 : r.reverse ++ [b] = (b :: r).reverse := by simp
+      rw [e2, ih]
+      simp only [pathLen_cons_cons, pathLen_single]
+      rw [seglen_comm b a]; ring
+
+theorem totalLength_revPath (p : Polyline ℝ) (h : p.closed = false) : totalLength (revPath p) = totalLength p := by
+  obtain ⟨l, c⟩ := p
+  simp only at h
+  subst h
+  unfold revPath
+  rw [totalLength_open, totalLength_open, pathLen_reverse]
+
+theorem farFromVertices_reverse {K : Type} [Field K] [LinearOrder K] [IsStrictOrderedRing K]
+    (vs : List (V3 K)) (p : V3 K) (atol : K) (h : FarFromVertices vs p atol) : FarFromVertices vs.reverse p atol :=
+  fun v hv => h v (List.mem_reverse.mp hv)
+
+/-- **closed simple polyline, two points on it — the returned orientation.**  `aligned_along_subsegment(a, b)`
+    returns the polyline or its flip, and IN THE RETURNED POLYLINE the sub-path from `a` to `b` is no longer than the
+    sub-path from `b` to `a` (the other way round): "the shorter way round". -/
+theorem aligned_closed_on_path_shorter (pl : Polyline ℝ) (hS : Simple pl) (hclosed : pl.closed = true)
+    (atol : ℝ) (hatol : 0 ≤ atol)
+    (i j : Nat) (sgi sgj : V3 ℝ × V3 ℝ) (hi : pl.segments[i]? = some sgi) (hj : pl.segments[j]? = some sgj)
+    (ta tb : ℝ) (hta0 : 0 < ta) (hta1 : ta < 1) (htb0 : 0 < tb) (htb1 : tb < 1)
+    (hfa : FarFromVertices pl.v (segPoint sgi ta) atol) (hfb : FarFromVertices pl.v (segPoint sgj tb) atol)
+    (hab : ¬ (|(segPoint sgi ta).x - (segPoint sgj tb).x| ≤ atol ∧ |(segPoint sgi ta).y - (segPoint sgj tb).y| ≤ atol ∧
+      |(segPoint sgi ta).z - (segPoint sgj tb).z| ≤ atol)) :
+    ∃ r s12 s21, alignedAlongSubsegment pl (segPoint sgi ta) (segPoint sgj tb) atol = .ok r ∧
+      (r = pl ∨ r = flipped pl) ∧
+      slicedAtPoints r (segPoint sgi ta) (segPoint sgj tb) atol = .ok s12 ∧
+      slicedAtPoints r (segPoint sgj tb) (segPoint sgi ta) atol = .ok s21 ∧
+      totalLength s12 ≤ totalLength s21 ∧ totalLength s12 + totalLength s21 = totalLength pl := by
+  obtain ⟨o12, o21, h12, h21, e12, e21, hsum, hal⟩ := aligned_closed_on_path pl hS hclosed atol hatol i j sgi sgj hi hj
+    ta tb hta0 hta1 htb0 htb1 hfa hfb hab
+  by_cases hflip : totalLength pl < 2 * totalLength o12
+  · rw [if_pos hflip] at hal
+    -- the same two points as positions on the flipped polyline
+    have hi' := segment_of_flipped pl i sgi hi
+    have hj' := segment_of_flipped pl j sgj hj
+    have hbi : i < (if pl.closed then pl.v.length else pl.v.length - 1) := by
+      have := (List.getElem?_eq_some_iff.mp hi).1
+      rwa [segments_length'] at this
+    have hbj : j < (if pl.closed then pl.v.length else pl.v.length - 1) := by
+      have := (List.getElem?_eq_some_iff.mp hj).1
+      rwa [segments_length'] at this
+    have ea := segPoint_swap sgi ta
+    have eb := segPoint_swap sgj tb
+    obtain ⟨f12, f21, g12, g21, d12, d21, _, _⟩ := aligned_closed_on_path (flipped pl) (simple_flipped hS) hclosed atol
+      hatol _ _ (sgi.2, sgi.1) (sgj.2, sgj.1) hi' hj' (1 - ta) (1 - tb) (by linarith) (by linarith) (by linarith)
+      (by linarith) (by rw [ea]; exact farFromVertices_reverse _ _ _ hfa)
+      (by rw [eb]; exact farFromVertices_reverse _ _ _ hfb) (by rw [ea, eb]; exact hab)
+    rw [ea, eb] at g12 g21 d12 d21
+    have hv : (flipped pl).v = pl.v.reverse := rfl
+    rw [hv, ← hclosed, subPath_flipped pl.v pl.closed i j ta tb _ _ hbi hbj, hclosed, ← e21] at d12
+    rw [hv, ← hclosed, subPath_flipped pl.v pl.closed j i tb ta _ _ hbj hbi, hclosed, ← e12] at d21
+    have c12 : f12 = revPath o21 := by
+      simp only [Except.map] at d12; injection d12
+    have c21 : f21 = revPath o12 := by
+      simp only [Except.map] at d21; injection d21
+    have l12 : totalLength f12 = totalLength o21 := by
+      rw [c12]; exact totalLength_revPath _ (subPath_open_result _ _ _ _ _ _ _ _ _ e21.symm)
+    have l21 : totalLength f21 = totalLength o12 := by
+      rw [c21]; exact totalLength_revPath _ (subPath_open_result _ _ _ _ _ _ _ _ _ e12.symm)
+    exact ⟨flipped pl, f12, f21, hal, Or.inr rfl, g12, g21, by rw [l12, l21]; linarith, by rw [l12, l21]; linarith⟩
+  · rw [if_neg hflip] at hal
+    exact ⟨pl, o12, o21, hal, Or.inl rfl, h12, h21, by linarith, hsum⟩
+
+/-- **open simple polyline, two points on it — the returned orientation.**  `aligned_along_subsegment(a, b)` returns
+    the polyline or its flip, and ON THE RETURNED POLYLINE `sliced_at_points(a, b)` succeeds (no ValueError): the
+    sub-path from `a` to `b` runs forward.  It is the forward sub-path of the polyline when `a` comes first, and the
+    reversed forward sub-path from `b` to `a` when the polyline was flipped. -/
+theorem aligned_open_on_path_forward (pl : Polyline ℝ) (hS : Simple pl) (hopen : pl.closed = false)
+    (atol : ℝ) (hatol : 0 ≤ atol)
+    (i j : Nat) (sgi sgj : V3 ℝ × V3 ℝ) (hi : pl.segments[i]? = some sgi) (hj : pl.segments[j]? = some sgj)
+    (ta tb : ℝ) (hta0 : 0 < ta) (hta1 : ta < 1) (htb0 : 0 < tb) (htb1 : tb < 1)
+    (hfa : FarFromVertices pl.v (segPoint sgi ta) atol) (hfb : FarFromVertices pl.v (segPoint sgj tb) atol)
+    (hab : ¬ (|(segPoint sgi ta).x - (segPoint sgj tb).x| ≤ atol ∧ |(segPoint sgi ta).y - (segPoint sgj tb).y| ≤ atol ∧
+      |(segPoint sgi ta).z - (segPoint sgj tb).z| ≤ atol)) :
+    ∃ r s, alignedAlongSubsegment pl (segPoint sgi ta) (segPoint sgj tb) atol = .ok r ∧
+      slicedAtPoints r (segPoint sgi ta) (segPoint sgj tb) atol = .ok s ∧
+      ((r = pl ∧ s = ⟨segPoint sgi ta :: (pl.v.drop (i + 1)).take (j - i) ++ [segPoint sgj tb], false⟩) ∨
+       (r = flipped pl ∧
+         s = revPath ⟨segPoint sgj tb :: (pl.v.drop (j + 1)).take (i - j) ++ [segPoint sgi ta], false⟩)) := by
+  have hal := aligned_open_on_path pl hS hopen atol i j sgi sgj hi hj ta tb hta0 hta1 htb0 htb1
+  have hne : i ≠ j ∨ ta ≠ tb := by
+    by_contra hcon
+    obtain ⟨h1, h2⟩ := not_or.mp hcon
+    have h1 := not_not.mp h1
+    have h2 := not_not.mp h2
+    subst h1 h2
+    have hs : sgj = sgi := Option.some.inj (hj.symm.trans hi)
+    rw [hs] at hab
+    apply hab
+    simp [hatol]
+  by_cases hback : j < i ∨ (j = i ∧ tb < ta)
+  · rw [if_pos hback] at hal
+    have hi' := segment_of_flipped pl i sgi hi
+    have hj' := segment_of_flipped pl j sgj hj
+    have hbi : i < (if pl.closed then pl.v.length else pl.v.length - 1) := by
+      have := (List.getElem?_eq_some_iff.mp hi).1
+      rwa [segments_length'] at this
+    have hbj : j < (if pl.closed then pl.v.length else pl.v.length - 1) := by
+      have := (List.getElem?_eq_some_iff.mp hj).1
+      rwa [segments_length'] at this
+    have ea := segPoint_swap sgi ta
+    have eb := segPoint_swap sgj tb
+    have h := sliced_at_points_on_path_real (flipped pl) (simple_flipped hS) atol hatol _ _ (sgi.2, sgi.1) (sgj.2, sgj.1)
+      hi' hj' (1 - ta) (1 - tb) (by linarith) (by linarith) (by linarith) (by linarith)
+      (by rw [ea]; exact farFromVertices_reverse _ _ _ hfa)
+      (by rw [eb]; exact farFromVertices_reverse _ _ _ hfb) (by rw [ea, eb]; exact hab)
+    rw [ea, eb] at h
+    have hv : (flipped pl).v = pl.v.reverse := rfl
+    have hc : (flipped pl).closed = pl.closed := rfl
+    rw [hv, hc, subPath_flipped pl.v pl.closed i j ta tb _ _ hbi hbj] at h
+    unfold subPath at h
+    rw [if_pos hback] at h
+    exact ⟨flipped pl, _, hal, h, Or.inr ⟨rfl, rfl⟩⟩
+  · rw [if_neg hback] at hal
+    have hfw : i < j ∨ (i = j ∧ ta < tb) := by
+      rcases Nat.lt_trichotomy i j with h | h | h
+      · exact Or.inl h
+      · right
+        refine ⟨h, ?_⟩
+        rcases hne with h' | h'
+        · exact absurd h h'
+        · rcases lt_trichotomy ta tb with h'' | h'' | h''
+          · exact h''
+          · exact absurd h'' h'
+          · exact absurd (Or.inr ⟨h.symm, h''⟩) hback
+      · exact absurd (Or.inl h) hback
+    have h := sliced_at_points_on_path_real pl hS atol hatol i j sgi sgj hi hj ta tb hta0 hta1 htb0 htb1 hfa hfb hab
+    unfold subPath at h
+    rw [if_pos hfw] at h
+    exact ⟨pl, _, hal, h, Or.inl ⟨rfl, rfl⟩⟩
+
+/-! ### the sub-path clause of the property, assembled -/
+
+/-- what the property says about two points `a = segPoint sgi ta`, `b = segPoint sgj tb` on a polyline:
+    `sliced_at_points(a, b)` is the sub-path between them, and in the polyline returned by
+    `aligned_along_subsegment(a, b)` that sub-path runs forward (open) / is the shorter way round (closed) -/
+def SubpathClause (pl : Polyline ℝ) (atol : ℝ) (i j : Nat) (sgi sgj : V3 ℝ × V3 ℝ) (ta tb : ℝ) : Prop :=
+  slicedAtPoints pl (segPoint sgi ta) (segPoint sgj tb) atol =
+    subPath pl.v pl.closed i ta (segPoint sgi ta) j tb (segPoint sgj tb) ∧
+  (pl.closed = false →
+    ∃ r s, alignedAlongSubsegment pl (segPoint sgi ta) (segPoint sgj tb) atol = .ok r ∧
+      slicedAtPoints r (segPoint sgi ta) (segPoint sgj tb) atol = .ok s ∧
+      ((r = pl ∧ s = ⟨segPoint sgi ta :: (pl.v.drop (i + 1)).take (j - i) ++ [segPoint sgj tb], false⟩) ∨
+       (r = flipped pl ∧
+         s = revPath ⟨segPoint sgj tb :: (pl.v.drop (j + 1)).take (i - j) ++ [segPoint sgi ta], false⟩))) ∧
+  (pl.closed = true →
+    ∃ r s12 s21, alignedAlongSubsegment pl (segPoint sgi ta) (segPoint sgj tb) atol = .ok r ∧
+      (r = pl ∨ r = flipped pl) ∧
+      slicedAtPoints r (segPoint sgi ta) (segPoint sgj tb) atol = .ok s12 ∧
+      slicedAtPoints r (segPoint sgj tb) (segPoint sgi ta) atol = .ok s21 ∧
+      totalLength s12 ≤ totalLength s21 ∧ totalLength s12 + totalLength s21 = totalLength pl)
+
+/-- **the sub-path clause, full statement**: every polyline that does not touch itself, every two different points on
+    it that lie strictly inside segments and are not within `atol` of a vertex.  (Not proved in this generality: for
+    two different points within `atol` of each other the code returns the single vertex `[Na]`, see
+    `sliced_at_points_original_same_point`.) -/
+def C07_subpath_statement (atol : ℝ) : Prop :=
+  ∀ (pl : Polyline ℝ), Simple pl →
+  ∀ (i j : Nat) (sgi sgj : V3 ℝ × V3 ℝ), pl.segments[i]? = some sgi → pl.segments[j]? = some sgj →
+  ∀ (ta tb : ℝ), 0 < ta → ta < 1 → 0 < tb → tb < 1 → (i ≠ j ∨ ta ≠ tb) →
+    FarFromVertices pl.v (segPoint sgi ta) atol → FarFromVertices pl.v (segPoint sgj tb) atol →
+    SubpathClause pl atol i j sgi sgj ta tb
+
+/-- **C07_subpath_partial**: the sub-path clause for every simple polyline and every two points on it that are not
+    within `atol` of a vertex *nor of each other* (coordinate-wise, `index_of_vertex`'s test; the property's
+    quantifier keeps them `1e-3` from the vertices, `atol = 1e-8`).  No hypothesis about what `nearest` returns. -/
+theorem C07_subpath_partial (atol : ℝ) (hatol : 0 ≤ atol) (pl : Polyline ℝ) (hS : Simple pl)
+    (i j : Nat) (sgi sgj : V3 ℝ × V3 ℝ) (hi : pl.segments[i]? = some sgi) (hj : pl.segments[j]? = some sgj)
+    (ta tb : ℝ) (hta0 : 0 < ta) (hta1 : ta < 1) (htb0 : 0 < tb) (htb1 : tb < 1)
+    (hfa : FarFromVertices pl.v (segPoint sgi ta) atol) (hfb : FarFromVertices pl.v (segPoint sgj tb) atol)
+    (hab : ¬ (|(segPoint sgi ta).x - (segPoint sgj tb).x| ≤ atol ∧ |(segPoint sgi ta).y - (segPoint sgj tb).y| ≤ atol ∧
+      |(segPoint sgi ta).z - (segPoint sgj tb).z| ≤ atol)) :
+    SubpathClause pl atol i j sgi sgj ta tb :=
+  ⟨sliced_at_points_on_path_real pl hS atol hatol i j sgi sgj hi hj ta tb hta0 hta1 htb0 htb1 hfa hfb hab,
+   fun hopen => aligned_open_on_path_forward pl hS hopen atol hatol i j sgi sgj hi hj ta tb hta0 hta1 htb0 htb1
+     hfa hfb hab,
+   fun hclosed => aligned_closed_on_path_shorter pl hS hclosed atol hatol i j sgi sgj hi hj ta tb hta0 hta1 htb0 htb1
+     hfa hfb hab⟩
+
 end real
 
 /-- **defect witness** (closed term over ℚ): one segment, one query, `ret_t_values=True` alone — the model
@@ -870,5 +2429,109 @@ example :
 /-- a closed square, wrapping: from the closing edge over the first vertices -/
 example : (slicedAtPointsWith (K := ℚ) id ⟨[⟨0, 0, 0⟩, ⟨2, 0, 0⟩, ⟨2, 2, 0⟩, ⟨0, 2, 0⟩], true⟩
       ⟨-1, 1, 0⟩ ⟨1, -1, 0⟩ (1 / 100000000)).map (·.v) = .ok [⟨0, 1, 0⟩, ⟨0, 0, 0⟩, ⟨1, 0, 0⟩] := by decide +kernel
+
+/-! ### non-vacuity of the original-index and on-path theorems (concrete instances over ℚ) -/
+
+section witnesses
+
+/-- the triangle `(0,0,0), (4,0,0), (0,4,0)`, closed, does not touch itself -/
+theorem triangle_simple {K : Type} [Field K] [LinearOrder K] [IsStrictOrderedRing K] :
+    Simple (⟨[⟨0, 0, 0⟩, ⟨4, 0, 0⟩, ⟨0, 4, 0⟩], true⟩ : Polyline K) := by
+  constructor
+  · intro sg hsg
+    simp only [Polyline.segments, if_true, List.cons_append, List.nil_append, List.zip_cons_cons, List.zip_nil_right,
+      List.mem_cons, List.not_mem_nil, or_false] at hsg
+    rcases hsg with rfl | rfl | rfl <;> simp
+  · intro i j sgi sgj hij hi hj s t hs0 hs1 ht0 ht1 heq
+    have hj3 : j < 3 := by
+      have := (List.getElem?_eq_some_iff.mp hj).1
+      simpa [Polyline.segments] using this
+    have hx := congrArg V3.x heq
+    have hy := congrArg V3.y heq
+    obtain rfl | rfl | rfl : j = 0 ∨ j = 1 ∨ j = 2 := by omega
+    · omega
+    · obtain rfl : i = 0 := by omega
+      simp [Polyline.segments] at hi hj
+      subst hi hj
+      simp [segPoint] at hx hy
+      left
+      refine ⟨rfl, by linarith, by linarith⟩
+    · obtain rfl | rfl : i = 0 ∨ i = 1 := by omega
+      · simp [Polyline.segments] at hi hj
+        subst hi hj
+        simp [segPoint] at hx hy
+        right
+        refine ⟨rfl, rfl, rfl, by linarith, by linarith⟩
+      · simp [Polyline.segments] at hi hj
+        subst hi hj
+        simp [segPoint] at hx hy
+        left
+        refine ⟨rfl, by linarith, by linarith⟩
+
+/-- every hypothesis of `sliced_at_points_on_path` holds for the triangle with `a` on the closing edge (segment 2,
+    `t = 1/2`: the point `(0,2,0)`) and `b` on segment 0 (`t = 1/4`: `(1,0,0)`); the conclusion is the wrapping
+    sub-path `a, (0,0,0), b` -/
+example :
+    slicedAtPointsWith (K := ℚ) id ⟨[⟨0, 0, 0⟩, ⟨4, 0, 0⟩, ⟨0, 4, 0⟩], true⟩ ⟨0, 2, 0⟩ ⟨1, 0, 0⟩ (1 / 100000000) =
+      .ok ⟨[⟨0, 2, 0⟩, ⟨0, 0, 0⟩, ⟨1, 0, 0⟩], false⟩ := by
+  have h := sliced_at_points_on_path (K := ℚ) id (fun _ _ _ _ => Iff.rfl) _ triangle_simple (1 / 100000000)
+    (by norm_num) 2 0 (⟨0, 4, 0⟩, ⟨0, 0, 0⟩) (⟨0, 0, 0⟩, ⟨4, 0, 0⟩) (by decide +kernel) (by decide +kernel)
+    (1 / 2) (1 / 4) (by norm_num) (by norm_num) (by norm_num) (by norm_num)
+    (by
+      intro v hv
+      simp only [List.mem_cons, List.not_mem_nil, or_false] at hv
+      rcases hv with rfl | rfl | rfl <;> simp [segPoint] <;> norm_num)
+    (by
+      intro v hv
+      simp only [List.mem_cons, List.not_mem_nil, or_false] at hv
+      rcases hv with rfl | rfl | rfl <;> simp [segPoint] <;> norm_num)
+    (by simp [segPoint]; norm_num)
+  have e1 : segPoint ((⟨0, 4, 0⟩, ⟨0, 0, 0⟩) : V3 ℚ × V3 ℚ) (1 / 2) = ⟨0, 2, 0⟩ := by
+    ext <;> (simp [segPoint]; try norm_num)
+  have e2 : segPoint ((⟨0, 0, 0⟩, ⟨4, 0, 0⟩) : V3 ℚ × V3 ℚ) (1 / 4) = ⟨1, 0, 0⟩ := by
+    ext <;> simp [segPoint]
+  rw [e1, e2] at h
+  rw [h]
+  simp [subPath]
+
+/-- every hypothesis of `sliced_at_points_original` holds for a closed square and two queries OFF the polyline: `a`
+    nearest to the closing edge (segment 3 at `t = 1/2`), `b` nearest to segment 0 (`t = 1/2`), including the
+    strictness condition for the closing edge -/
+example :
+    let pl : Polyline ℚ := ⟨[⟨0, 0, 0⟩, ⟨2, 0, 0⟩, ⟨2, 2, 0⟩, ⟨0, 2, 0⟩], true⟩
+    let atol : ℚ := 1 / 100000000
+    LandsInside id pl atol ⟨-1, 1, 0⟩ 3 (1 / 2) ⟨0, 1, 0⟩ ∧ LandsInside id pl atol ⟨1, -1, 0⟩ 0 (1 / 2) ⟨1, 0, 0⟩ ∧
+    vertexMatches (⟨1, 0, 0⟩ : V3 ℚ) atol ⟨0, 1, 0⟩ = false ∧
+    (pl.closed = true → 3 + 1 = pl.v.length → 0 ≠ 3 → ∀ sg, pl.segments[3]? = some sg →
+      ((⟨1, 0, 0⟩ : V3 ℚ) - ⟨1, -1, 0⟩).normSq < (closestPoint ⟨1, -1, 0⟩ sg.1 (sg.2 - sg.1) - ⟨1, -1, 0⟩).normSq) ∧
+    subPath pl.v pl.closed 3 (1 / 2) ⟨0, 1, 0⟩ 0 (1 / 2) ⟨1, 0, 0⟩ = .ok ⟨[⟨0, 1, 0⟩, ⟨0, 0, 0⟩, ⟨1, 0, 0⟩], false⟩ := by
+  refine ⟨⟨_, rfl, by decide +kernel, by decide +kernel, by decide +kernel, by decide +kernel⟩,
+    ⟨_, rfl, by decide +kernel, by decide +kernel, by decide +kernel, by decide +kernel⟩, by decide +kernel, ?_,
+    by simp [subPath]⟩
+  intro _ _ _ sg hsg
+  have : sg = (⟨0, 2, 0⟩, ⟨0, 0, 0⟩) := by
+    have h2 : (⟨[⟨0, 0, 0⟩, ⟨2, 0, 0⟩, ⟨2, 2, 0⟩, ⟨0, 2, 0⟩], true⟩ : Polyline ℚ).segments[3]? =
+        some (⟨0, 2, 0⟩, ⟨0, 0, 0⟩) := by decide +kernel
+    exact Option.some.inj (hsg.symm.trans h2)
+  subst this
+  decide +kernel
+
+/-- every hypothesis of `C07_subpath_partial` (over ℝ, `atol = 1e-8`) holds for the triangle with `a` on the closing
+    edge and `b` on segment 0 -/
+example : SubpathClause (⟨[⟨0, 0, 0⟩, ⟨4, 0, 0⟩, ⟨0, 4, 0⟩], true⟩ : Polyline ℝ) (1 / 100000000) 2 0
+    (⟨0, 4, 0⟩, ⟨0, 0, 0⟩) (⟨0, 0, 0⟩, ⟨4, 0, 0⟩) (1 / 2) (1 / 4) :=
+  C07_subpath_partial (1 / 100000000) (by norm_num) _ triangle_simple 2 0 _ _ (by simp [Polyline.segments])
+    (by simp [Polyline.segments]) (1 / 2) (1 / 4) (by norm_num) (by norm_num) (by norm_num) (by norm_num)
+    (by
+      intro v hv
+      simp only [List.mem_cons, List.not_mem_nil, or_false] at hv
+      rcases hv with rfl | rfl | rfl <;> simp [segPoint] <;> norm_num)
+    (by
+      intro v hv
+      simp only [List.mem_cons, List.not_mem_nil, or_false] at hv
+      rcases hv with rfl | rfl | rfl <;> simp [segPoint] <;> norm_num)
+    (by simp [segPoint]; norm_num)
+
+end witnesses
 
 end PW.C07
